@@ -4,7 +4,7 @@ from __future__ import annotations
 import ast
 
 from sa import pat, source
-from sa.cfg import cfg_of, guards
+from sa.cfg import cfg_of, conjuncts, guards, negate
 from sa.minieval import CannotEval, Record, ev
 from sa.classes import is_logging_stmt
 from sa.source import AnchorMissing, arg_of, bind_args, dotted, inline, is_self_attr, last_attr, local_defs, params_of, short, u, walk_body
@@ -60,15 +60,460 @@ def _root(e, defs):
 def unpacked_result(run_call):
     """Names the statement around the runner invocation unpacks the result triple into, by position; None unless it is a plain tuple of names."""
     asg = source.enclosing_stmt(run_call)
+    if isinstance(asg, ast.Assign) and len(asg.targets) == 1 and isinstance(asg.targets[0], ast.Name):
+        # kept as one value first: the single statement of the function that unpacks that local
+        fn = source.enclosing_func(run_call)
+        later = [n for n in (ast.walk(fn) if fn is not None else ()) if isinstance(n, ast.Assign) and isinstance(n.value, ast.Name) and n.value.id == asg.targets[0].id
+                 and len(n.targets) == 1 and isinstance(n.targets[0], ast.Tuple)]
+        stores = [n for n in (ast.walk(fn) if fn is not None else ()) if isinstance(n, ast.Name) and isinstance(n.ctx, ast.Store) and n.id == asg.targets[0].id]
+        asg = later[0] if len(later) == 1 and len(stores) == 1 else asg
     if isinstance(asg, ast.Assign) and len(asg.targets) == 1 and isinstance(asg.targets[0], ast.Tuple) and all(isinstance(x, ast.Name) for x in asg.targets[0].elts):
         return [x.id for x in asg.targets[0].elts]
     return None
 
 
+# ---- local helpers that make the rules independent of how the code is cut into statements and functions (candidates for sa/: nothing here is specific to C04) ----------------------
+
+
+def _arm_value(stmts, name):
+    """(value, number of assignments) if the arm is - logging and docstrings aside - the single assignment `name = value` or a nested if/else chain of such arms; else (None, 0)"""
+    stmts = [s for s in stmts if not is_logging_stmt(s) and not (isinstance(s, ast.Expr) and isinstance(s.value, ast.Constant))]
+    if len(stmts) != 1:
+        return None, 0
+    s = stmts[0]
+    if isinstance(s, ast.Assign) and len(s.targets) == 1 and isinstance(s.targets[0], ast.Name) and s.targets[0].id == name:
+        return s.value, 1
+    if isinstance(s, ast.If) and s.orelse and not getattr(s, "_synthetic_arm", None):
+        return _if_value(s, name)
+    return None, 0
+
+
+def _if_value(s, name):
+    b, nb = _arm_value(s.body, name)
+    o, no = _arm_value(s.orelse, name)
+    if b is None or o is None:
+        return None, 0
+    return parse_expr(f"({u(b)}) if ({u(s.test)}) else ({u(o)})"), nb + no
+
+
+def cond_defs(func):
+    """name -> conditional expression for locals that are bound ONLY in the arms of one if / elif / else chain, every arm being the single assignment to that local:
+    `if c: x = a` / `else: x = b` reads like `x = a if c else b` (and an if-chain like a nested conditional expression). The synthesized expression hangs below the `if`
+    statement (ancestors work), it is never handed to the CFG."""
+    plain, other = {}, {}
+    for n in walk_body(func):
+        if isinstance(n, ast.Assign):
+            for t in n.targets:
+                if isinstance(t, ast.Name) and len(n.targets) == 1:
+                    plain[t.id] = plain.get(t.id, 0) + 1
+                else:
+                    for x in ast.walk(t):
+                        if isinstance(x, ast.Name) and isinstance(x.ctx, ast.Store):
+                            other[x.id] = other.get(x.id, 0) + 1
+        elif isinstance(n, (ast.AugAssign, ast.AnnAssign, ast.NamedExpr)) and isinstance(n.target, ast.Name):
+            other[n.target.id] = other.get(n.target.id, 0) + 1
+        elif isinstance(n, (ast.For, ast.AsyncFor, ast.comprehension)):
+            for t in ast.walk(n.target):
+                if isinstance(t, ast.Name):
+                    other[t.id] = other.get(t.id, 0) + 1
+        elif isinstance(n, (ast.With, ast.AsyncWith)):
+            for it in n.items:
+                for t in ast.walk(it.optional_vars) if it.optional_vars is not None else ():
+                    if isinstance(t, ast.Name):
+                        other[t.id] = other.get(t.id, 0) + 1
+    cands = {k for k, c in plain.items() if c >= 2 and not other.get(k)}
+    if not cands:
+        return {}
+    params = set(params_of(func)) | {a.arg for a in func.args.kwonlyargs}
+    out = {}
+    for s in walk_body(func):
+        if not (isinstance(s, ast.If) and s.orelse and not getattr(s, "_synthetic_arm", None)):
+            continue
+        for k in cands - set(out) - params:
+            e, n = _if_value(s, k)
+            if e is not None and n == plain[k]:
+                source.set_parents(e)
+                e._parent = s
+                out[k] = e
+    return out
+
+
+def all_defs(func):
+    """single-assignment locals, the locals defined by one if/else chain (cond_defs) and the locals whose only binding is one assignment expression (`(x := e)`)"""
+    d = dict(local_defs(func))
+    d.update(cond_defs(func))
+    stores, walrus = {}, {}
+    for n in walk_body(func):
+        if isinstance(n, ast.Name) and isinstance(n.ctx, ast.Store):
+            stores[n.id] = stores.get(n.id, 0) + 1
+        if isinstance(n, ast.NamedExpr) and isinstance(n.target, ast.Name):
+            walrus[n.target.id] = n.value
+    d.update({k: v for k, v in walrus.items() if stores.get(k) == 1 and k not in d and k not in params_of(func)})
+    for n in walk_body(func):  # a, b = x, y   binds a to x and b to y
+        if isinstance(n, ast.Assign) and len(n.targets) == 1 and isinstance(n.targets[0], ast.Tuple) and isinstance(n.value, ast.Tuple) and len(n.value.elts) == len(n.targets[0].elts):
+            for t_, v in zip(n.targets[0].elts, n.value.elts):
+                if isinstance(t_, ast.Name) and stores.get(t_.id) == 1 and t_.id not in d and t_.id not in params_of(func) and not isinstance(v, ast.Starred):
+                    d[t_.id] = v
+    return d
+
+
+def _ret_value(stmts):
+    """the value a statement list returns if it is - docstring and logging aside - `return e` or an if / else both arms of which are of that kind (read as a conditional
+    expression; a guard clause `if c: return a` followed by `return b` has been given that shape by the normaliser); else None"""
+    stmts = [s for s in stmts if not is_logging_stmt(s) and not (isinstance(s, ast.Expr) and isinstance(s.value, ast.Constant))]
+    if len(stmts) != 1:
+        return None
+    s = stmts[0]
+    if isinstance(s, ast.Return):
+        return s.value
+    if isinstance(s, ast.If) and s.orelse:
+        b, o = _ret_value(s.body), _ret_value(s.orelse)
+        if b is not None and o is not None:
+            return parse_expr(f"({u(b)}) if ({u(s.test)}) else ({u(o)})")
+    return None
+
+
+def helper_value(e, sc, mod):
+    """if e is a call of a helper (method of the class / function of the module) whose body only computes and returns one expression - possibly choosing it by if / else -,
+    that expression over the names of the outermost caller (lift); else None"""
+    c = e.value if isinstance(e, ast.Await) else e
+    f = resolve_callee(c, mod, sc.defs) if isinstance(c, ast.Call) else None
+    if f is None or f is sc.func:
+        return None
+    # leading single assignments are locals of the helper (folded by lift), the rest must be the returned expression
+    body = list(f.body)
+    while body and (isinstance(body[0], ast.Assign) and len(body[0].targets) == 1 and isinstance(body[0].targets[0], ast.Name)
+                    or is_logging_stmt(body[0]) or (isinstance(body[0], ast.Expr) and isinstance(body[0].value, ast.Constant))):
+        body.pop(0)
+    r = _ret_value(body)
+    if r is None:
+        return None
+    hs = _Scope(f, all_defs(f), call=c, outer=sc)
+    # the returned expression is written in the helper: occurrences of helper locals are folded, parameters become the caller's arguments
+    return lift(r, hs)
+
+
+def resolve_callee(c, mod, defs=None):
+    """definition of the function a call refers to when it is a method of the class the call is written in (self.m / cls.m / <Class>.m, looked up in that class and its bases
+    within the module) or a function of the same module - directly or through a local alias (`f = self.m` hoisted out of a loop); None for anything else."""
+    f = _root(c.func, defs or {}) if isinstance(c.func, ast.Name) else c.func
+    if isinstance(f, ast.Name):
+        n = mod.index().get(f.id)
+        return n if isinstance(n, source.FUNC_TYPES) else None
+    if isinstance(f, ast.Attribute) and isinstance(f.value, ast.Name):
+        k = source.enclosing_class(c)
+        if k is not None and f.value.id in ("self", "cls", k.name):
+            todo, seen = [k], set()
+            while todo:
+                k_ = todo.pop(0)
+                if k_.name in seen:
+                    continue
+                seen.add(k_.name)
+                m = mod.methods(k_).get(f.attr)
+                if m is not None:
+                    return m
+                for b in k_.bases:
+                    bn = mod.index().get(last_attr(b) or "")
+                    if isinstance(bn, ast.ClassDef):
+                        todo.append(bn)
+    return None
+
+
+class _Scope:
+    """home of an expression: the function it is written in with its locals (all_defs) and - for a helper entered through a call - the binding of its parameters to the argument
+    expressions, which are written in the scope of the caller (`outer`)"""
+
+    def __init__(self, func, defs, call=None, outer=None):
+        self.func, self.defs, self.call, self.outer = func, defs, call, outer
+        self.bind = {}
+        if call is not None:
+            stored = {n.id for n in ast.walk(func) if isinstance(n, ast.Name) and isinstance(n.ctx, ast.Store)}
+            self.bind = {p: a for p, a in bind_args(call, func).items() if p not in stored}  # a re-bound parameter no longer is the caller's value
+
+    @property
+    def root(self):
+        return self if self.outer is None else self.outer.root
+
+
+def _fold(e, defs, hook, sc, depth=0):
+    e = hook(e, sc) if hook is not None else source.clone(e)  # a hook returns a fresh copy
+
+    class T(ast.NodeTransformer):
+        def visit_Name(self, n):
+            if isinstance(n.ctx, ast.Load) and n.id in defs and depth < 10:
+                d = defs[n.id]
+                if isinstance(d, ast.Name) and d.id.startswith("__arg_"):
+                    return ast.Name(id=d.id, ctx=ast.Load())
+                if any(isinstance(x, (ast.Call, ast.Await)) for x in ast.walk(d)):
+                    return n
+                return _fold(d, defs, hook, sc, depth + 1)
+            return n
+
+    return T().visit(e)
+
+
+def lift(e, sc, hook=None, keep=()):
+    """fresh copy of e (written in scope sc) over the names of the outermost caller: locals are folded (a local whose definition contains a call stays an opaque name, two clock
+    reads are not one value), parameters of a helper are replaced by the caller's argument expressions. hook(expr, scope) -> fresh copy may rewrite every expression of a
+    scope before it is folded (e.g. put a representative value in the place of a quantity); names in `keep` are left alone in sc."""
+    defs = {k: v for k, v in sc.defs.items() if k not in keep}
+    if sc.outer is None:
+        return _fold(e, defs, hook, sc)
+    ph = {p: f"__arg_{i}__" for i, p in enumerate(sc.bind) if p not in keep}
+    local = {k: v for k, v in defs.items() if k not in ph}
+    local.update({p: ast.Name(id=nm, ctx=ast.Load()) for p, nm in ph.items()})
+    e1 = _fold(e, local, hook, sc)
+    used = {n.id for n in ast.walk(e1) if isinstance(n, ast.Name)}
+    args = {nm: lift(sc.bind[p], sc.outer, hook) for p, nm in ph.items() if nm in used}
+    return source.inline_node(e1, args, no_calls=False) if args else e1
+
+
+# ---- waits of the request loop (O4.3, O4.2) ------------------------------------------------------------------------------------------------------------------------------------------
+# A wait is `await asyncio.sleep(amount)` written in the loop or in a helper (method of the executor / function of the module) awaited from it. Whether it is the documented
+# sleep-until is decided on VALUES: the guards that control it - in the helper and around the call - and its amount are evaluated for representative (scheduled time, T - now)
+# pairs; the spelling of the tests, their nesting, guard clauses and the cut into functions do not matter.
+
+_WAIT_GRID = ((0, -3.0), (0, 0.0), (7.0, -3.0), (7.0, 0.0), (7.0, 1e-07), (7.0, 0.0004), (7.0, 2.5))  # (scheduled time, T - now); a request scheduled at 0 is never ahead of time
+
+
+def wait_sites(L, root_sc, mod, depth=2):
+    """(sites, opaque): sites = [(the `await asyncio.sleep(..)`, scope it is written in, await node of the loop through which it is reached)] for every sleep in the request
+    loop or in a helper awaited from it (followed `depth` calls deep); opaque = [(await, its await node in the loop)]: awaits of something that cannot be followed."""
+    sites, opaque = [], []
+
+    def scan(nodes, sc, top, d):
+        for n in nodes:
+            if not isinstance(n, ast.Await):
+                continue
+            t = top if top is not None else n
+            if _is_sleep(n):
+                sites.append((n, sc, t))
+                continue
+            c = n.value
+            callee = resolve_callee(c, mod, sc.defs) if isinstance(c, ast.Call) else None
+            if callee is not None and d > 0 and callee is not sc.func:
+                scan(list(walk_body(callee)), _Scope(callee, all_defs(callee), call=c, outer=sc), t, d - 1)
+            else:
+                opaque.append((n, t))
+
+    scan(list(ast.walk(L)), root_sc, None, depth)
+    return sites, opaque
+
+
+def _ev(e, env):
+    """sa.minieval.ev, plus max / min of several numbers (clamped waits)"""
+    class T(ast.NodeTransformer):
+        def visit_Call(self, n):
+            self.generic_visit(n)
+            if dotted(n.func) in ("max", "min") and len(n.args) >= 2 and not n.keywords:
+                vals = [ev(a, dict(env)) for a in n.args]
+                if all(isinstance(v, (int, float)) and not isinstance(v, bool) for v in vals):
+                    return ast.Constant(value=max(vals) if dotted(n.func) == "max" else min(vals))
+            return n
+
+    return ev(T().visit(source.clone(e)), dict(env))
+
+
+def _truth(e, env):
+    try:
+        return bool(_ev(e, env))
+    except (CannotEval, TypeError, ValueError, KeyError, AttributeError, ZeroDivisionError):
+        return None
+
+
+def wait_verdict(s, sc, L, sched, lat_inl, ctxvar):
+    """('ok' | 'bad' | 'unknown', detail) for one sleep of the request loop: it is the sleep-until of the throttled schedule iff (1) its amount derives from a quantity
+    R = T - now() whose T is the very T the throttled latency subtracts from request_end (R + latency == request_end - now()), and (2) for every representative
+    (scheduled time, R) the client waits R when the task is throttled (scheduled time > 0) and ahead of time (R > 0) and does not wait otherwise. A condition on the wait
+    that depends on neither value can suppress it: located and wrong."""
+    call_ = s.value
+    argv = call_.args[0] if call_.args else (call_.keywords[0].value if call_.keywords else None)
+    if argv is None:
+        return "unknown", "asyncio.sleep() without an amount"
+
+    def chain_of(nm, sc0):
+        ch, e, cs = [], ast.Name(id=nm, ctx=ast.Load()), sc0
+        for _ in range(12):
+            if isinstance(e, ast.Name) and e.id in cs.defs:
+                ch.append((cs, e.id))
+                e = cs.defs[e.id]
+            elif isinstance(e, ast.Name) and e.id in cs.bind and cs.outer is not None:
+                ch.append((cs, e.id))
+                e, cs = cs.bind[e.id], cs.outer
+            else:
+                break
+        return ch, e, cs
+
+    def reads_clock(e, cs):
+        return any(_is_clock(n) or (isinstance(n, ast.Name) and _is_clock(cs.defs.get(n.id))) for n in ast.walk(e))
+
+    if not isinstance(argv, ast.Name) and reads_clock(argv, sc):
+        # the amount is spelled out in the call: the quantity is the outermost sum / difference in it that reads the clock (`max(0, T - now())`: T - now())
+        sums = [n for n in ast.walk(argv) if isinstance(n, ast.BinOp) and isinstance(n.op, (ast.Add, ast.Sub)) and reads_clock(n, sc)]
+        outer = [n for n in sums if not any(n is not m and any(x is n for x in ast.walk(m)) for m in sums)]
+        if len(outer) != 1:
+            return "unknown", f"the amount `{u(argv)}` is not derived from one difference to a reading of the monotonic clock"
+        chain, rdef, rsc = [], outer[0], sc
+    else:
+        cands = []
+        for n in ast.walk(argv):
+            if isinstance(n, ast.Name) and isinstance(n.ctx, ast.Load):
+                ch, e, cs = chain_of(n.id, sc)
+                if ch and reads_clock(e, cs):
+                    cands.append((ch, e, cs))
+        if len(cands) != 1:
+            return "unknown", f"the amount `{u(argv)}` is not derived from one difference to a reading of the monotonic clock"
+        chain, rdef, rsc = cands[0]
+    if lat_inl is None or ctxvar is None:
+        return "unknown", "the throttled latency formula was not located"
+    r1 = source.inline_node(rdef, {k: v for k, v in rsc.defs.items() if _is_clock(v)}, no_calls=False)  # `now = clock(); rest = T - now` is one read
+    rl = lift(r1, rsc)
+    if not rat_equal(ast.BinOp(left=rl, op=ast.Add(), right=lat_inl), parse_expr(f"{ctxvar}.request_end - time.perf_counter()")):
+        return "bad", f"sleep({u(argv)}) waits for {u(rl)} whereas the throttled latency is {u(lat_inl)}: not the same point in time"
+    names = {}
+    for cs, nm in chain:
+        names.setdefault(id(cs), set()).add(nm)
+    rtext = u(rdef)
+
+    def valued(rv):
+        def hook(e, cs):
+            mine = names.get(id(cs), ())
+
+            class T(ast.NodeTransformer):
+                def visit(self, n):
+                    if isinstance(n, ast.Name) and isinstance(n.ctx, ast.Load) and n.id in mine:
+                        return ast.Constant(value=rv)
+                    if cs is rsc and isinstance(n, ast.BinOp) and u(n) == rtext:
+                        return ast.Constant(value=rv)
+                    return self.generic_visit(n)
+
+            return T().visit(source.clone(e))
+
+        return hook
+
+    conds, node, cs = [], s, sc
+    while True:
+        top_level = cs.outer is None
+        conds += [(t, pol, cs) for t, pol in guards(node, stop=L if top_level else None, path_sensitive=not top_level)]
+        if top_level:
+            break
+        node, cs = cs.call, cs.outer
+    facts = [(f, cs) for t, pol, cs in conds for f in conjuncts(t if pol else negate(t))]
+    shown = f"sleep({u(argv)}) with {u(argv)} from {u(rl)} under {[u(f) for f, _ in facts]}"
+    for sv, rv in _WAIT_GRID:
+        hook, env = valued(rv), {sched: sv}
+        vals = [(_truth(lift(f, cs, hook), env), f) for f, cs in facts]
+        try:
+            amount = _ev(lift(argv, sc, hook), env)
+        except (CannotEval, TypeError, ValueError, KeyError, AttributeError, ZeroDivisionError):
+            amount = None
+        if not isinstance(amount, (int, float)) or isinstance(amount, bool):
+            return "unknown", f"{shown}: the amount cannot be evaluated for scheduled time {sv:g}, T - now() = {rv:g}"
+        want = rv if sv > 0 and rv > 0 else 0
+        foreign = [u(f) for v, f in vals if v is None]
+        if any(v is False for v, _ in vals):
+            got = 0
+        elif not foreign:
+            got = amount if amount > 0 else 0
+        elif want > 0:
+            return "bad", f"{shown}: the wait additionally depends on {foreign}, which is neither the scheduled time nor the time left - a throttled client that is ahead of time may issue its request early"
+        elif amount > 0:
+            return "unknown", f"{shown}: {foreign} cannot be evaluated on the scheduled time and the time left"
+        else:
+            got = 0
+        if got != want:
+            return "bad", f"{shown}: scheduled time {sv:g}, T - now() = {rv:g}: the client waits {got:g}, the schedule demands {want:g}"
+    return "ok", shown
+
+
+def sampler_add_fn(drv):
+    """(Sampler.add, the Sample(...) construction in it): the method of the sampler class that builds the Sample - located by what it does, not by its name"""
+    sc_ = drv.cls("Sampler")
+    for m in drv.methods(sc_).values():
+        ctor = [n for n in walk_body(m) if isinstance(n, ast.Call) and last_attr(n.func) == "Sample"]
+        if ctor:
+            return m, ctor[0]
+    raise AnchorMissing("the method of Sampler that constructs the Sample")
+
+
+def sampler_add_calls(root, add_fn, defs):
+    """calls under root that hand a sample to the sampler: the callee - written out or through a local alias of the bound method - is an attribute named like the
+    Sample-constructing method and the arguments bind every required parameter of it"""
+    a = add_fn.args
+    required = [x.arg for x in (a.posonlyargs + a.args)][1:len(a.posonlyargs + a.args) - len(a.defaults)] + [x.arg for x, d in zip(a.kwonlyargs, a.kw_defaults) if d is None]
+    out = []
+    for n in ast.walk(root):
+        if not isinstance(n, ast.Call):
+            continue
+        f = _root(n.func, defs) if isinstance(n.func, ast.Name) else n.func
+        if isinstance(f, ast.Attribute) and f.attr == add_fn.name and all(p in bind_args(n, add_fn) for p in required):
+            out.append(n)
+    return out
+
+
+def sample_handovers(root, sc, drv, add_fn):
+    """[(node under root that hands a sample to the sampler, {parameter of Sampler.add -> expression over the names of the function of scope sc}, unconditional?)]: the calls
+    of Sampler.add written under root, or - if there is none - the calls of a helper (method of the class / function of the module) whose body hands over exactly one sample:
+    the helper's parameters are replaced by the caller's argument expressions (the caller's own nodes where an argument is passed through unchanged). `unconditional` says
+    whether the hand-over inside the helper is on every normal path through it (True for a direct call)."""
+    direct = sampler_add_calls(root, add_fn, sc.defs)
+    if direct:
+        return [(c, bind_args(c, add_fn), True) for c in direct]
+    out = []
+    for c in ast.walk(root):
+        h = resolve_callee(c, drv, sc.defs) if isinstance(c, ast.Call) else None
+        if h is None or h is sc.func:
+            continue
+        hd = all_defs(h)
+        inner = sampler_add_calls(h, add_fn, hd)
+        if len(inner) != 1:
+            continue
+        hs = _Scope(h, hd, call=c, outer=sc)
+        b = {}
+        for p_, e in bind_args(inner[0], add_fn).items():
+            r = _root(e, hd)
+            if isinstance(r, ast.Name) and r.id in hs.bind:
+                b[p_] = hs.bind[r.id]
+            else:
+                x = lift(e, hs)
+                ast.copy_location(x, c)
+                x._module = getattr(c, "_module", None)
+                b[p_] = x
+        gh = cfg_of(h)
+        always = not guards(inner[0], path_sensitive=True) and source.enclosing(inner[0], (ast.For, ast.While, ast.AsyncFor)) is None \
+            and gh.must_pass(gh.entry, gh.nodes_of(inner[0]), normal_only=True)
+        out.append((c, b, always))
+    return out
+
+
+def sample_field_flow(drv):
+    """(add function, Sample(...) call in it, {parameter of add -> Sample attribute it lands in}, {Sample parameter -> expression in add}). A Sample written as a dataclass
+    (no __init__) stores every field under its own name."""
+    add_fn, ctor = sampler_add_fn(drv)
+    sample = drv.cls("Sample")
+    init = drv.methods(sample).get("__init__")
+    attr_of_param = {}
+    if init is None:
+        fields = [s.target.id if isinstance(s, ast.AnnAssign) else s.targets[0].id for s in sample.body
+                  if (isinstance(s, ast.AnnAssign) and isinstance(s.target, ast.Name)) or (isinstance(s, ast.Assign) and len(s.targets) == 1 and isinstance(s.targets[0], ast.Name))]
+        if not fields or not any("dataclass" in u(d) for d in sample.decorator_list):
+            raise AnchorMissing("Sample.__init__ (or the fields of a dataclass Sample)")
+        init = ast.parse(f"def __init__(self, {', '.join(fields)}):\n    pass").body[0]
+        attr_of_param = {f: f for f in fields}
+    else:
+        for n in walk_body(init):
+            if isinstance(n, ast.Assign) and len(n.targets) == 1 and is_self_attr(n.targets[0]) and isinstance(n.value, ast.Name):
+                attr_of_param[n.value.id] = n.targets[0].attr
+    b2 = bind_args(ctor, init)  # Sample parameter -> expression in add
+    add_params = set(params_of(add_fn)) | {x.arg for x in add_fn.args.kwonlyargs}
+    attr_of_add_param = {e.id: attr_of_param.get(sp) for sp, e in b2.items() if isinstance(e, ast.Name) and e.id in add_params}
+    return add_fn, ctor, attr_of_add_param, b2
+
+
 def task_start_of(call, L, g, defs):
     """The local holding the task start: the EARLIEST read of the monotonic clock before the request loop (a later pre-loop read - e.g. the schedule start taken after the
     ramp-up wait - is a different role, see schedule_anchor)."""
-    cands = [k for k, v in defs.items() if isinstance(v, ast.Call) and dotted(v.func) == "time.perf_counter" and L not in list(source.ancestors(v))]
+    cands = [k for k, v in defs.items() if _is_clock(v) and L not in list(source.ancestors(v))]
     if not cands:
         raise AnchorMissing("task start timestamp (perf_counter before the loop)")
 
@@ -106,11 +551,12 @@ class _SimUnsupported(Exception):
 class _St:
     """one abstract path through the start-up code: values of the locals, virtual time, end of the ramp-up wait (None: this path did not wait)"""
 
-    def __init__(self, env=None, t=_T0, wait_end=None, wait_from=None, unknown_wait=False):
+    def __init__(self, env=None, t=_T0, wait_end=None, wait_from=None, unknown_wait=False, stack=()):
         self.env, self.t, self.wait_end, self.wait_from, self.unknown_wait = dict(env or {}), t, wait_end, wait_from, unknown_wait
+        self.stack = [dict(e) for e in stack]  # locals of the callers while a helper of the executor is walked
 
     def copy(self):
-        return _St(self.env, self.t, self.wait_end, self.wait_from, self.unknown_wait)
+        return _St(self.env, self.t, self.wait_end, self.wait_from, self.unknown_wait, self.stack)
 
     def plain(self):
         return {k: v for k, v in self.env.items() if v is not _OPQ}
@@ -120,24 +566,86 @@ def _is_sleep(n):
     return isinstance(n, ast.Await) and isinstance(n.value, ast.Call) and dotted(n.value.func) == "asyncio.sleep"
 
 
+_alias_cache: dict = {}
+
+
+def _clock_name(n):
+    """'time.<f>' if the call n reads a clock of the time module: written out, through a name imported from time, or through a local alias of the function hoisted out of
+    a loop (`now = time.perf_counter`); None for anything else"""
+    if not isinstance(n, ast.Call):
+        return None
+    f = n.func
+    if isinstance(f, ast.Name):
+        fn = source.enclosing_func(n)
+        if fn is not None:
+            d = _alias_cache.get(id(fn))
+            if d is None or d[0] is not fn:
+                d = _alias_cache[id(fn)] = (fn, local_defs(fn))
+            v = d[1].get(f.id)
+            if isinstance(v, ast.Attribute):
+                f = v
+        if isinstance(f, ast.Name):
+            m = getattr(n, "_module", None)
+            full = m.imports.get(f.id) if m is not None else None
+            return full if full and full.startswith("time.") else None
+    d = dotted(f)
+    return d if d and d.startswith("time.") else None
+
+
 def _is_clock(n):
-    return isinstance(n, ast.Call) and dotted(n.func) == "time.perf_counter" and not n.args and not n.keywords
+    return _clock_name(n) == "time.perf_counter" and not n.args and not n.keywords
 
 
 class _Sim:
     def __init__(self, L, roots, w):
         self.L, self.roots, self.w, self.reached = L, set(roots), w, []
+        self.mod = getattr(L, "_module", None)
+        self.rets = None  # [(value, state)] of the helper being walked; None at the top level
+
+    # -- helpers of the executor / functions of the module called while the client starts up (an extracted ramp-up wait, an extracted choice of the schedule's zero point)
+    def helper_of(self, v):
+        c = v.value if isinstance(v, ast.Await) else v
+        if self.mod is None or not isinstance(c, ast.Call) or _is_sleep(v):
+            return None, None
+        f = resolve_callee(c, self.mod)
+        if f is None or any(n is self.L for n in ast.walk(f)) or isinstance(f, ast.AsyncFunctionDef) != isinstance(v, ast.Await):
+            return None, None
+        return f, c
+
+    def call_helper(self, f, c, st, target=None):
+        """[state]: the helper's body walked on the same virtual clock with its parameters bound to the values of the arguments; its result is bound to `target`"""
+        if len(st.stack) >= 2:
+            raise _SimUnsupported(f"helpers nested more than two calls deep (line {c.lineno})")
+        args = {p: self.val(a, st) for p, a in bind_args(c, f).items()}
+        for a_, d in zip(reversed(f.args.args), reversed(f.args.defaults)):  # defaults of parameters that are not passed
+            if a_.arg not in args:
+                args[a_.arg] = self.val(d, st)
+        st.stack.append(st.env)
+        st.env = args
+        saved, self.rets = self.rets, []
+        try:
+            outs = [(None, o) for o in self.block(f.body, [st])] + self.rets
+        finally:
+            self.rets = saved
+        final = []
+        for v, o in outs:
+            o.env = o.stack.pop()
+            if target is not None:
+                o.env[target] = v
+            final.append(o)
+        return final
 
     # -- expressions
     def bound(self, e, st):
         """copy of e in which the wait amount (by its defining expression) and clock reads are replaced by their values on this path"""
         sim = self
+        clock_reads = {u(n) for n in ast.walk(e) if _is_clock(n)}  # decided on the original nodes: an alias of the clock function is resolved in their function
 
         class T(ast.NodeTransformer):
             def visit(self, n):
                 if isinstance(n, ast.expr) and u(n) in sim.roots:
                     return ast.Constant(value=sim.w)
-                if _is_clock(n):
+                if isinstance(n, ast.Call) and u(n) in clock_reads:
                     return ast.Constant(value=st.t)
                 return self.generic_visit(n)
 
@@ -190,6 +698,14 @@ class _Sim:
         if s is self.L:
             self.reached.append(st)
             return []
+        if isinstance(s, (ast.Assign, ast.Expr)):
+            f, c = self.helper_of(s.value)
+            if f is not None:
+                tgt = s.targets[0].id if isinstance(s, ast.Assign) and len(s.targets) == 1 and isinstance(s.targets[0], ast.Name) else None
+                if isinstance(s, ast.Assign) and tgt is None:
+                    for t_ in s.targets:
+                        self._forget(t_, st)
+                return self.call_helper(f, c, st, tgt)
         if isinstance(s, ast.Assign):
             if len(s.targets) == 1 and isinstance(s.targets[0], ast.Name):
                 out = []
@@ -231,6 +747,9 @@ class _Sim:
                 if i.optional_vars is not None:
                     self._forget(i.optional_vars, st)
             return self.block(s.body, [st])
+        if isinstance(s, ast.Return) and self.rets is not None:
+            self.rets += self.vals(s.value, st) if s.value is not None else [(None, st)]
+            return []
         if isinstance(s, (ast.Return, ast.Raise, ast.Break, ast.Continue)):
             return []
         if isinstance(s, (ast.For, ast.AsyncFor, ast.While, ast.Match)):
@@ -262,15 +781,28 @@ def schedule_zero(body, st, ctxvar, sched):
 
 
 def pre_loop_waits(call, L, g):
-    """the client's ramp-up wait by role: `await asyncio.sleep(..)` executed before the request loop is entered"""
+    """the client's ramp-up wait by role: `await asyncio.sleep(..)` executed before the request loop is entered - written in the executor or in a helper awaited from it.
+    [(the sleep, the await node of the executor through which it is reached, locals of the function the sleep is written in)]"""
     Lh = g.node_of(L)
-    return [n for n in walk_body(call) if _is_sleep(n) and not any(a is L for a in source.ancestors(n)) and g.path_exists(g.node_of(n), Lh)]
+    mod = getattr(L, "_module", None)
+    out = []
+    for n in walk_body(call):
+        if not isinstance(n, ast.Await) or any(a is L for a in source.ancestors(n)) or not g.path_exists(g.node_of(n), Lh):
+            continue
+        if _is_sleep(n):
+            out.append((n, n, None))
+        elif mod is not None and isinstance(n.value, ast.Call):
+            f = resolve_callee(n.value, mod)
+            if f is not None and not any(x is L for x in ast.walk(f)):
+                out += [(s, n, all_defs(f)) for s in walk_body(f) if _is_sleep(s)]
+    return out
 
 
 def schedule_zero_cases(call, L, g, defs, lat_body, ctxvar, sched):
     """(ramp-up waits, [(wait amount, start-up path, value of the schedule's zero point on it or None)]) - see _Sim / schedule_zero"""
-    waits = pre_loop_waits(call, L, g)
-    roots = {u(_root(w.value.args[0], defs)) for w in waits if w.value.args}  # the wait amount, named by its defining expression (alias chains followed)
+    found = pre_loop_waits(call, L, g)
+    waits = [top for _, top, _ in found]
+    roots = {u(_root(s.value.args[0], defs if hd is None else hd)) for s, _, hd in found if s.value.args}  # the wait amount, named by its defining expression (alias chains followed)
     ldefs = {k: v for k, v in defs.items() if any(a is L for a in source.ancestors(v))}  # temporaries of the loop body are folded, start-up locals are looked up on the path
     body = inline_node(lat_body, ldefs)
     out = []
@@ -326,9 +858,9 @@ def schedule_start_rule(chk, rid, call, L, g, defs, lat_body, ctxvar, sched):
              "a latency that contains the ramp-up delay although the client was never behind schedule")
     if lat_body is None or ctxvar is None:
         raise AnchorMissing("throttled latency formula (conditional expression handed to sampler.add as latency)")
-    waits = pre_loop_waits(call, L, g)
+    waits = [top for _, top, _ in pre_loop_waits(call, L, g)]
     if not waits:
-        raise AnchorMissing("ramp-up wait: `await asyncio.sleep(..)` before the request loop of AsyncExecutor.__call__")
+        raise AnchorMissing("ramp-up wait: `await asyncio.sleep(..)` before the request loop of AsyncExecutor.__call__ (in it or in a helper awaited from it)")
     try:
         _, cases = schedule_zero_cases(call, L, g, defs, lat_body, ctxvar, sched)
     except _SimUnsupported as e:
@@ -360,13 +892,22 @@ def schedule_start_rule(chk, rid, call, L, g, defs, lat_body, ctxvar, sched):
                    key=f"{_D}:AsyncExecutor.__call__:schedule-zero:clock-reading-at-start")
 
 
-def _ends_request(c):
-    """a call that records `now` as the end of the current request context"""
+def _ends_request(c, mod=None, depth=2):
+    """a call that records `now` as the end of the current request context: the holder's on_request_end() / update_request_end(<clock read>), or a helper of the class /
+    module every normal path of which passes such a call (an extracted `_request_failed()`)"""
     if not isinstance(c, ast.Call):
         return False
     if last_attr(c.func) == "on_request_end":
         return True
-    return last_attr(c.func) == "update_request_end" and len(c.args) == 1 and _is_clock(c.args[0])
+    if last_attr(c.func) == "update_request_end" and len(c.args) == 1 and _is_clock(c.args[0]):
+        return True
+    if mod is not None and depth > 0:
+        f = resolve_callee(c, mod)
+        if f is not None and f is not source.enclosing_func(c):
+            gh = cfg_of(f)
+            ends = [gh.node_of(x) for x in walk_body(f) if _ends_request(x, mod, depth - 1)]
+            return bool(ends) and gh.must_pass(gh.entry, ends, normal_only=True)
+    return False
 
 
 def _catches_exception(try_):
@@ -378,7 +919,7 @@ def _catches_exception(try_):
     return False
 
 
-def frame_ends_failed_request(f):
+def frame_ends_failed_request(f, mod=None):
     """(protected, swallowed, detail) for one frame `perform_request` of the async client's call chain: protected = every exceptional exit of each awaited delegate
     `….perform_request(..)` passes a call that records the end of the request (the call itself may fail - a missing context - and be tolerated) before the exception leaves the
     frame; only non-Exception BaseExceptions (cancellation of the client, no request outcome) may leave unrecorded; swallowed = a failure can reach the frame's normal exit."""
@@ -386,23 +927,52 @@ def frame_ends_failed_request(f):
     delegates = [n.value for n in walk_body(f) if isinstance(n, ast.Await) and isinstance(n.value, ast.Call) and last_attr(n.value.func) == "perform_request"]
     if not delegates:
         return False, False, "no awaited delegate perform_request call"
-    ends = [g.node_of(c) for c in walk_body(f) if _ends_request(c)]
+    ends = [n_ for c in walk_body(f) if _ends_request(c, mod) for n_ in g.nodes_of(c)]  # every copy: the body of a `finally` exists once per way of leaving the try
     # a `with <guard>:` block around the recording call (contextlib.suppress for the missing context) is entered in order to record: entering it counts as the attempt
     # (only if the call is an unconditional statement of the block that nothing fallible precedes)
     from sa.cfg import may_raise
 
     def records_first(w):
         for s_ in w.body:
-            if isinstance(s_, ast.Expr) and _ends_request(s_.value):
+            if isinstance(s_, ast.Expr) and _ends_request(s_.value, mod):
                 return True
             if may_raise(s_):
                 return False
         return False
 
     ends += [n_ for w in walk_body(f) if isinstance(w, (ast.With, ast.AsyncWith)) and records_first(w) for n_ in g.by_ast.get(id(w), []) if n_.kind == "with"]
+    def infeasible_after_failure(dn):
+        """edges that cannot be taken once the delegate call (node dn) has raised: the arm of a test of a boolean flag - a local bound to True / False only - that contradicts
+        the one value the flag has whenever the delegate runs (`failed = True; try: r = await ...; failed = False ... finally: if failed: <record>`); bindings that only run
+        after the delegate returned do not count, a flag that can be re-bound on the way out of the failure is left alone"""
+        binds, spoiled = {}, set()
+        for n in walk_body(f):
+            if isinstance(n, ast.Assign) and len(n.targets) == 1 and isinstance(n.targets[0], ast.Name) and isinstance(n.value, ast.Constant) and isinstance(n.value.value, bool):
+                binds.setdefault(n.targets[0].id, []).append(n)
+            elif isinstance(n, ast.Name) and isinstance(n.ctx, ast.Store) and not (isinstance(source.parent(n), ast.Assign) and isinstance(source.parent(n).value, ast.Constant)):
+                spoiled.add(n.id)
+        exc_succ = [g.nodes[y] for y, lab in g.succ[dn.id] if not g.normal_edge(dn.id, y, lab)]
+        out = []
+        for name, assigns in binds.items():
+            if name in spoiled:
+                continue
+            before = [a for a in assigns if any(g.path_exists(x, dn, edge_ok=g.normal_edge) for x in g.nodes_of(a))]
+            vals = {a.value.value for a in before}
+            later = [a for a in assigns if a not in before]
+            if len(vals) != 1 or any(g.path_exists(s_, x) for a in later for x in g.nodes_of(a) for s_ in exc_succ):
+                continue
+            v = vals.pop()
+            for t_ in walk_body(f):
+                if isinstance(t_, ast.If):
+                    truth = v if (isinstance(t_.test, ast.Name) and t_.test.id == name) else (not v) if pat.is_(t_.test, "not V_x", binds={"x": name}) else None
+                    if truth is not None:
+                        out += [(tn.id, y, lab) for tn in g.nodes_of(t_) for y, lab in g.succ[tn.id] if lab == ("false" if truth else "true")]
+        return out
+
     protected, swallowed, detail = True, False, ""
     for d in delegates:
         dn = g.node_of(d)
+        dead = infeasible_after_failure(dn)
         for y, lab in g.succ[dn.id]:
             if g.normal_edge(dn.id, y, lab):
                 continue
@@ -413,11 +983,11 @@ def frame_ends_failed_request(f):
                 if not any(_catches_exception(t) for t in tr):
                     protected, detail = False, "a failure of the delegate leaves the frame without passing any handler"
                 continue
-            if not g.must_pass(s, ends, exits=[g.exit, g.raise_exit]):
+            if not g.must_pass(s, ends, exits=[g.exit, g.raise_exit], avoid_edges=dead):
                 protected = False
                 p_ = g.find_path(s, g.raise_exit, avoid=ends) or g.find_path(s, g.exit, avoid=ends)
                 detail = "a failure leaves through " + " ".join(g.describe_path(p_)) if p_ else "a failure leaves without recording the request end"
-            if g.exit.id in g.reachable([s]):
+            if g.exit.id in g.reachable([s], avoid_edges=dead):
                 swallowed = True
     return protected, swallowed, detail
 
@@ -439,10 +1009,28 @@ def failed_request_end_rule(chk, rid, repo):
     nc = node_cls[0]
     chain = [nc] + [c for c in am.classes() if any(last_attr(b) in ("AsyncTransport", "AsyncElasticsearch") for b in c.bases)]
     frames = [(c, am.methods(c)["perform_request"]) for c in chain if "perform_request" in am.methods(c)]
-    verdicts = [(c, f, *frame_ends_failed_request(f)) for c, f in frames]
+    verdicts = [(c, f, *frame_ends_failed_request(f, am)) for c, f in frames]
+    verdicts = [v for v in verdicts if v[4] != "no awaited delegate perform_request call"]  # a frame that does not delegate (in a recognisable way) says nothing
     good = [v for v in verdicts if v[2]]
     nf = am.methods(nc).get("perform_request")
     site = good[0][1] if good else (nf if nf is not None else nc)
+
+    def opaque_recorders():
+        """calls on the exceptional exits of the delegate calls that are neither recognised as recording the request end nor resolvable nor logging: they MAY record it"""
+        out = []
+        for _, f, *_ in verdicts:
+            for t_ in (n for n in walk_body(f) if isinstance(n, ast.Try)):
+                if not any(isinstance(n, ast.Await) and isinstance(n.value, ast.Call) and last_attr(n.value.func) == "perform_request" for x in t_.body for n in ast.walk(x)):
+                    continue
+                for blk in [h.body for h in t_.handlers] + [t_.finalbody]:
+                    for x in blk:
+                        for n in ast.walk(x):
+                            if isinstance(n, ast.Call) and not _ends_request(n, am) and resolve_callee(n, am) is None and not is_logging_stmt(source.enclosing_stmt(n)) \
+                                    and "." in (dotted(n.func) or ""):  # a method of some object
+                                out.append(n)
+        return out
+
+    recognised = any(_ends_request(n, am) for _, f, *_ in verdicts for n in walk_body(f))
     if good:
         detail = f"{good[0][0].name}.perform_request records the end on every exceptional exit of its delegate call"
     elif nf is None:
@@ -450,35 +1038,80 @@ def failed_request_end_rule(chk, rid, repo):
                   "request: elastic_transport reads the response body after aiohttp's last exception signal, a failure there stops no timer")
     else:
         detail = "; ".join(f"{c.name}.perform_request: {d}" for c, _, ok_, _, d in verdicts if not ok_)
-    chk.ob(rid, "every exceptional exit of a wire request records the request end (node-level perform_request or a frame above it)", bool(good), site, detail,
-           key=f"{_A}:{nc.name}.perform_request:request-end-on-every-exceptional-exit")
+    if not verdicts:
+        chk.unknown(rid, "no frame of the async client's perform_request chain awaits a delegate perform_request call: the chain is not recognised in this shape", site)
+    elif not good and not recognised and opaque_recorders():
+        chk.unknown(rid, f"`{short(opaque_recorders()[0], 70)}` on the exceptional exit of the wire request cannot be followed (it may record the request end)", opaque_recorders()[0])
+    else:
+        chk.ob(rid, "every exceptional exit of a wire request records the request end (node-level perform_request or a frame above it)", bool(good), site, detail,
+               key=f"{_A}:{nc.name}.perform_request:request-end-on-every-exceptional-exit")
     sw = [v for v in verdicts if v[3]]
-    chk.ob(rid, "the failure of the wire request still propagates (recorded, not swallowed)", not sw, sw[0][1] if sw else site,
-           "" if not sw else f"{sw[0][0].name}.perform_request: a path from the failed delegate call reaches the normal exit",
-           key=f"{_A}:{nc.name}.perform_request:failure-propagates")
+    if verdicts:
+        chk.ob(rid, "the failure of the wire request still propagates (recorded, not swallowed)", not sw, sw[0][1] if sw else site,
+               "" if not sw else f"{sw[0][0].name}.perform_request: a path from the failed delegate call reaches the normal exit",
+               key=f"{_A}:{nc.name}.perform_request:failure-propagates")
     uses = [k for n in ast.walk(am.tree) if isinstance(n, ast.Call) for k in n.keywords if k.arg == "node_class"]
-    ok = bool(uses) and all(isinstance(k.value, ast.Name) and k.value.id == nc.name for k in uses)
-    chk.ob(rid, "the async transport is built with this node class", ok, uses[0].value if uses else nc, f"node_class = {[u(k.value) for k in uses] or 'not set'}",
-           key=f"{_A}:{nc.name}:node-class-of-the-async-transport")
+    named = [last_attr(k.value) for k in uses]
+    elsewhere = [n for n in ast.walk(am.tree) if isinstance(n, ast.Name) and n.id == nc.name and isinstance(n.ctx, ast.Load) and not any(n is k.value for k in uses)]
+    if (not uses and elsewhere) or any(x is None for x in named):
+        # handed over in another way (a dict of keyword arguments, a variable): the value that reaches the transport cannot be read off
+        chk.unknown(rid, f"the node class the async transport is built with (node_class = {[u(k.value) for k in uses] or 'not passed as a keyword'}; {nc.name} is referenced elsewhere)",
+                    (uses[0].value if uses else elsewhere[0]))
+    else:
+        chk.ob(rid, "the async transport is built with this node class", bool(uses) and all(x == nc.name for x in named), uses[0].value if uses else nc,
+               f"node_class = {[u(k.value) for k in uses] or 'not set: the class is referenced nowhere, the transport uses the default node class of the library'}",
+               key=f"{_A}:{nc.name}:node-class-of-the-async-transport")
 
 
-def flow_roles(L, defs, ctxvar, total_start, res):
+def may_carry(a, src, scope_func, defs, mod, depth=3):
+    """the expression a can evaluate to the value of the local `src` on some path: it is that name, a local bound to such an expression (any of its bindings in scope_func),
+    an arm of a conditional expression / operand of `or` / `and`, or the result of a helper (method of the class / function of the module) that returns the parameter this
+    value is bound to - on some path, through its own locals"""
+    if src is None or depth < 0:
+        return False
+    if isinstance(a, ast.Name):
+        if a.id == src:
+            return True
+        if a.id in defs:
+            return may_carry(defs[a.id], src, scope_func, defs, mod, depth - 1)
+        vals = [n.value for n in ast.walk(scope_func) if isinstance(n, ast.Assign) and any(isinstance(t, ast.Name) and t.id == a.id for t in n.targets)]
+        return any(may_carry(v, src, scope_func, defs, mod, depth - 1) for v in vals)
+    if isinstance(a, ast.IfExp):
+        return may_carry(a.body, src, scope_func, defs, mod, depth) or may_carry(a.orelse, src, scope_func, defs, mod, depth)
+    if isinstance(a, ast.BoolOp):
+        return any(may_carry(v, src, scope_func, defs, mod, depth) for v in a.values)
+    if isinstance(a, ast.Await):
+        return may_carry(a.value, src, scope_func, defs, mod, depth)
+    if isinstance(a, ast.Call):
+        callee = resolve_callee(a, mod, defs)
+        if callee is None:
+            return False
+        carriers = [p for p, x in bind_args(a, callee).items() if may_carry(x, src, scope_func, defs, mod, depth - 1)]
+        hdefs = all_defs(callee)
+        return any(may_carry(r.value, p, callee, hdefs, mod, depth - 1) for r in walk_body(callee) if isinstance(r, ast.Return) and r.value is not None for p in carriers)
+    return False
+
+
+def flow_roles(L, defs, ctxvar, total_start, res, mod, sched, expand=None):
     """label of EXPECTED_FLOW -> predicate deciding whether an argument expression of the loop's sampler.add call IS that value. The value is recognised by data flow only:
     its position in the schedule tuple / in the unpacked runner result, the clock read defining it, its formula over the request context, the key popped from the meta data,
-    the schedule value assigned to it. Local variable names play no role (the labels are the names in the frozen source and only serve as stable obligation keys)."""
+    the schedule value it can carry (also through a helper that returns it). Local variable names play no role (the labels are the names in the frozen source and only serve
+    as stable obligation keys)."""
     lt = [x.id if isinstance(x, ast.Name) else None for x in (L.target.elts if isinstance(L.target, ast.Tuple) else [])] + [None] * 3
     ops, unit, meta = (list(res or []) + [None] * 3)[:3]
+    fn = source.enclosing_func(L)
 
     def inl(a):
-        return inline_node(a, defs)
+        hv = expand(a) if expand is not None else None  # a value computed by a helper that returns one expression reads like that expression
+        return hv if hv is not None else inline_node(a, defs)
 
     def is_name(a, nm):
-        e = inl(a)
+        e = _root(a, defs)
         return nm is not None and isinstance(e, ast.Name) and e.id == nm
 
-    def clock(a, fn):  # a local assigned inside the loop from one read of the clock `fn`
+    def clock(a, fn_):  # a local assigned inside the loop from one read of the clock `fn_`
         d = _root(a, defs)
-        return isinstance(a, ast.Name) and isinstance(d, ast.Call) and dotted(d.func) == fn and L in list(source.ancestors(d))
+        return isinstance(a, ast.Name) and _clock_name(d) == fn_ and L in list(source.ancestors(d))
 
     def formula(a, text):
         return ctxvar is not None and total_start is not None and rat_equal(inl(a), parse_expr(text))
@@ -486,29 +1119,31 @@ def flow_roles(L, defs, ctxvar, total_start, res):
     def popped(a, key):  # <meta>.pop(key, None), directly or through a single-assignment local
         return meta is not None and pat.is_(_root(a, defs), f"V_m.pop('{key}', None)", binds={"m": meta})
 
-    def assigned_from(a, src):  # the local of the loop that receives the schedule's value `src` on some path
-        return src is not None and isinstance(a, ast.Name) and any(
-            isinstance(n, ast.Assign) and isinstance(n.value, ast.Name) and n.value.id == src and any(isinstance(t, ast.Name) and t.id == a.id for t in n.targets) for n in ast.walk(L))
-
     def clock_span(a):
         e = inl(a)
         return isinstance(e, ast.BinOp) and isinstance(e.op, ast.Sub) and clock(e.left, "time.perf_counter") and clock(e.right, "time.perf_counter")
 
+    def on_schedule(a):  # the one value that is conditional on the scheduled time (its formula is O4.1's business)
+        e = _root(a, defs)
+        if not isinstance(e, ast.IfExp) and expand is not None and expand(a) is not None:
+            e = expand(a)
+        return isinstance(e, ast.IfExp) and any(isinstance(n, ast.Name) and n.id == sched for n in ast.walk(inline_node(e.test, defs)))
+
     return {
-        "self.task": lambda a: u(a) == "self.task",
-        "self.client_id": lambda a: u(a) == "self.client_id",
+        "self.task": lambda a: u(_root(a, defs)) == "self.task",  # also through a local alias hoisted out of the loop
+        "self.client_id": lambda a: u(_root(a, defs)) == "self.client_id",
         "sample_type": lambda a: is_name(a, lt[1]),  # second element of the schedule tuple
         "request_meta_data": lambda a: is_name(a, meta),  # third element of the runner's result
         "absolute_processing_start": lambda a: clock(a, "time.time"),  # the wall-clock stamp
         "request_start": lambda a: ctxvar is not None and u(inl(a)) == f"{ctxvar}.request_start",
-        "latency": lambda a: isinstance(inl(a), ast.IfExp),  # the one value that depends on being throttled (its formula is O4.1's business)
+        "latency": on_schedule,
         "service_time": lambda a: formula(a, f"{ctxvar}.request_end - {ctxvar}.request_start"),
         "processing_time": clock_span,  # difference of two monotonic clock reads of this iteration
         "throughput": lambda a: popped(a, "throughput"),
         "total_ops": lambda a: is_name(a, ops),  # first element of the runner's result
         "total_ops_unit": lambda a: is_name(a, unit),  # second element of the runner's result
         "time_period": lambda a: formula(a, f"{ctxvar}.request_end - {total_start}"),
-        "progress": lambda a: assigned_from(a, lt[2]),  # receives the schedule's percent-completed (third element of the schedule tuple)
+        "progress": lambda a: may_carry(a, lt[2], fn, defs, mod),  # can carry the schedule's percent-completed (third element of the schedule tuple)
         "request_meta_data.pop('dependent_timing', None)": lambda a: popped(a, "dependent_timing"),
     }
 
@@ -518,6 +1153,10 @@ def run(chk):
     drv, ctx = repo.module(_D), repo.module(_C)
     chk.use(drv, ctx, "docs/metrics.rst")
     chk.explanation = (
+        "Roles are located by data flow (which value reaches which Sample attribute through Sampler.add, positions of the schedule tuple and of the runner's result, clock "
+        "reads), helpers of the executor / functions of the module are followed (an extracted sleep-until, progress selection, latency formula, ramp-up wait, result "
+        "normalisation, failure recorder), conditions are decided on representative values (scheduled time, time left, result / on_error / error flag, exception classes of "
+        "the library); a role that cannot be located is reported as not recognised (exit 2), never as a violation. "
         "Decides the timing formulas and their program order in the request loop against the definitions in docs/metrics.rst: service_time = request_end - request_start "
         "of the request's own context; processing_time = processing_end - processing_start bracketing that context; latency = request_end - (schedule start + scheduled time) iff "
         "throttled (scheduled > 0), else service_time; the sleep-until idiom on the same scheduled time precedes the request; the issue time stamp is taken after the wait; "
@@ -541,82 +1180,144 @@ def run(chk):
 
     call, L = request_loop(drv)
     g = cfg_of(call)
-    defs = local_defs(call)
+    defs = all_defs(call)  # single-assignment locals, and locals bound by the arms of one if/else chain (read as conditional expressions)
     Lh = g.node_of(L)
-    sched = L.target.elts[0].id if isinstance(L.target, ast.Tuple) else None
+    sched = L.target.elts[0].id if isinstance(L.target, ast.Tuple) and isinstance(L.target.elts[0], ast.Name) else None
     if sched is None:
         raise AnchorMissing("schedule tuple target of the request loop")
-    withs = [n for n in ast.walk(L) if isinstance(n, ast.With) and any("new_request_context" in u(i.context_expr) for i in n.items)]
+    withs = [n for n in ast.walk(L) if isinstance(n, ast.With) and any("new_request_context" in u(inline_node(i.context_expr, defs)) for i in n.items)]
     if not withs:
         raise AnchorMissing("request context `with ... new_request_context()` in the request loop")
     Wn = withs[0]
     ctxvar = Wn.items[0].optional_vars.id if isinstance(Wn.items[0].optional_vars, ast.Name) else None
-    runs = [n for n in ast.walk(L) if isinstance(n, ast.Call) and last_attr(n.func) == "execute_single"]
+    runs = [n for n in ast.walk(L) if isinstance(n, ast.Call) and last_attr(_root(n.func, defs) if isinstance(n.func, ast.Name) else n.func) == "execute_single"]
     if not runs:
         raise AnchorMissing("runner invocation (execute_single) in the request loop")
-    adds = [n for n in ast.walk(L) if isinstance(n, ast.Call) and u(n.func) == "self.sampler.add"]
-    if not adds:
-        raise AnchorMissing("self.sampler.add(...) in the request loop")
-    addc = adds[0]
+    samp_add, ctor0, attr_of_add_param, b2 = sample_field_flow(drv)
+    root_sc = _Scope(call, defs)
+    handovers = sample_handovers(L, root_sc, drv, samp_add)
+    if not handovers:
+        raise AnchorMissing(f"call of Sampler.{samp_add.name}(...) in the request loop (directly or in a helper of the executor called from it)")
+    adds = [c for c, _, _ in handovers]
+    addc, b1, add_always = handovers[0]  # the call of the loop that records the sample; parameter of Sampler.add -> expression of the loop
     total_start = task_start_of(call, L, g, defs)  # anchors time_period; the schedule's zero point is a role of its own (see the throttled latency below and O4.7)
 
-    def arg_named(param):
-        samp = drv.methods(drv.cls("Sampler"))["add"]
-        return bind_args(addc, samp).get(param)
+    def arg_named(attr):
+        """the expression of the loop that lands in Sample.<attr>: followed through the parameter of Sampler.add that the Sample(...) construction stores there (the
+        parameter's own name plays no role)"""
+        ps = [p for p, a in attr_of_add_param.items() if a == attr and p in b1]
+        return b1[ps[0]] if len(ps) == 1 else None
+
+    def not_located(rid, what, node=None):
+        chk.unknown(rid, f"{what}: not recognised in this shape of the request loop", node if node is not None else addc)
+
+    def expand(a):
+        """the expression behind a value that a helper computes (`x = self._f(..)` with a helper that only computes and returns one expression, possibly chosen by if / else):
+        the helper's expression over the names of this function; None for anything else"""
+        r = _root(a, defs)
+        return helper_value(r, root_sc, drv) if isinstance(r, (ast.Call, ast.Await)) else None
+
+    def formula_of(a):
+        hv = expand(a)
+        return hv if hv is not None else inline_node(a, defs)
 
     # ---- O4.1 formulas ---------------------------------------------------------------------------------------------------------------
     chk.rule("O4.1", "service_time == request_end - request_start (same request context); processing_time == processing_end - processing_start; "
              "latency == request_end - (schedule start + scheduled) if throttled else service_time; throttled == scheduled > 0", 5,
              "every request of a throttled (latency) / any (service, processing) task reports a different span than documented")
+    if ctxvar is None:
+        not_located("O4.1", "the request context is not bound to a local (`with ... as ctx`)", Wn)
     st = arg_named("service_time")
-    ok = False
-    detail = ""
-    if st is not None:
-        e = inline_node(st, defs)
-        ok = ctxvar is not None and rat_equal(e, parse_expr(f"{ctxvar}.request_end - {ctxvar}.request_start"))
-        detail = f"service_time = {u(e)}"
-    chk.ob("O4.1", "service_time = ctx.request_end - ctx.request_start", ok, st if st is not None else addc, detail)
+    if st is None or ctxvar is None:
+        not_located("O4.1", "the value handed to the sampler as service_time")
+    else:
+        e = formula_of(st)
+        chk.ob("O4.1", "service_time = ctx.request_end - ctx.request_start", rat_equal(e, parse_expr(f"{ctxvar}.request_end - {ctxvar}.request_start")), st, f"service_time = {u(e)}")
     pt = arg_named("processing_time")
-    ok = False
     pend = pstart = None
-    if pt is not None:
+    pt_wrong = False
+    if pt is None:
+        not_located("O4.1", "the value handed to the sampler as processing_time")
+    else:
         e = inline_node(pt, defs)  # clock reads stay opaque names (no_calls), pure temporaries are folded
-        ok = isinstance(e, ast.BinOp) and isinstance(e.op, ast.Sub) and isinstance(e.left, ast.Name) and isinstance(e.right, ast.Name) \
-            and e.left.id in defs and e.right.id in defs and dotted(getattr(defs[e.left.id], "func", None) or ast.Name(id="")) == "time.perf_counter" \
-            and dotted(getattr(defs[e.right.id], "func", None) or ast.Name(id="")) == "time.perf_counter"
+
+        def clock_local(x):
+            return isinstance(x, ast.Name) and x.id in defs and _is_clock(defs[x.id])
+
+        def opaque_local(x):  # a local that is not bound once, or is bound to the result of some other call: it may well hold a reading of the monotonic clock (a wrapper)
+            return isinstance(x, ast.Name) and (x.id not in defs or (isinstance(defs[x.id], (ast.Call, ast.Await)) and _clock_name(defs[x.id]) is None))
+
+        ok = isinstance(e, ast.BinOp) and isinstance(e.op, ast.Sub) and clock_local(e.left) and clock_local(e.right)
         pend, pstart = (e.left.id, e.right.id) if ok else (None, None)
-        detail = f"processing_time = {u(e)}"
-    chk.ob("O4.1", "processing_time = processing_end - processing_start (both perf_counter)", ok, pt if pt is not None else addc, detail)
+        pt_wrong = not ok
+        if not ok and isinstance(e, ast.BinOp) and isinstance(e.op, ast.Sub) and all(clock_local(x) or opaque_local(x) for x in (e.left, e.right)):
+            pt_wrong = False
+            not_located("O4.1", f"the clock behind the processing interval `{u(e)}` (its ends are results of calls that are not the monotonic clock function itself)", pt)
+        else:
+            chk.ob("O4.1", "processing_time = processing_end - processing_start (both perf_counter)", ok, pt, f"processing_time = {u(e)}")
     lat = arg_named("latency")
-    ok_t = ok_b = ok_e = False
     thr_expr = lat_body = None
     zdetail = ""
 
-    def is_throttle_test(e):  # scheduled > 0, in either orientation (e already inlined)
-        return pat.is_(e, "V_s > 0", binds={"s": sched})
+    def throttle_test(e):
+        """True / False / None (cannot be told): the test - already inlined - holds exactly for the scheduled times > 0. Decided on values, conjunct by conjunct; a conjunct
+        that depends on something else than the scheduled time can switch a throttled request to the unthrottled formula: located and wrong."""
+        undecided = False
+        for v in (0, 1e-09, 7.0):
+            vals = [_truth(f, {sched: v}) for f in conjuncts(e)]
+            if any(x is False for x in vals):
+                got = False
+            elif all(x is True for x in vals):
+                got = True
+            elif any(x is True for x in vals):
+                return False  # what can be evaluated holds, a condition foreign to the schedule decides
+            else:
+                undecided = True
+                continue
+            if got != (v > 0):
+                return False
+        return None if undecided else True
 
-    if lat is not None:
+    if lat is None:
+        not_located("O4.1", "the value handed to the sampler as latency")
+    else:
         le = _root(lat, defs)
+        if not isinstance(le, ast.IfExp) and expand(lat) is not None:
+            le = expand(lat)  # computed by a helper: its expression, over the names of the loop
         if isinstance(le, ast.IfExp):
             thr_expr = inline_node(le.test, defs)
-            ok_t = is_throttle_test(thr_expr)
+            ok_t = throttle_test(thr_expr)
             # request_end - (Z + scheduled) for SOME loop-invariant Z that is a reading of the monotonic clock taken while the client started up (the schedule's zero point, by
             # role: whatever the formula adds to the scheduled time; before the ramp-up repair that was the task start, now it is a reading taken after the ramp-up wait - O4.7)
             lat_body = le.body
             ok_b, zdetail = schedule_zero_is_clock_reading(call, L, g, defs, lat_body, ctxvar, sched)
-            ok_e = st is not None and (u(inline_node(le.orelse, defs)) == u(inline_node(st, defs)) or rat_equal(inline_node(le.orelse, defs), inline_node(st, defs)))
             detail = f"latency = {u(inline_node(le.body, defs))} if {u(thr_expr)} else {u(inline_node(le.orelse, defs))}" + (f" [{zdetail}]" if zdetail else "")
+            if ok_t is None:
+                not_located("O4.1", f"the throttle condition `{u(thr_expr)}` of the latency cannot be evaluated on the scheduled time", lat)
+            else:
+                chk.ob("O4.1", "throttled == (scheduled time > 0)", ok_t, lat, detail)
+            if ctxvar is not None:
+                chk.ob("O4.1", "throttled latency = request_end - (schedule start + scheduled time)", ok_b, lat, detail)
+            if st is not None:
+                ok_e = u(inline_node(le.orelse, defs)) == u(formula_of(st)) or rat_equal(inline_node(le.orelse, defs), formula_of(st))
+                chk.ob("O4.1", "unthrottled latency = service_time", ok_e, lat, detail)
+        elif any(isinstance(n, (ast.Call, ast.Await)) for n in ast.walk(le)) or isinstance(le, ast.Name):
+            not_located("O4.1", f"the latency `{u(le)}` is not a formula of this function", lat)
         else:
-            detail = f"latency is not a conditional expression: {u(le) if le is not None else None}"
-    chk.ob("O4.1", "throttled == (scheduled time > 0)", ok_t, lat if lat is not None else addc, detail)
-    chk.ob("O4.1", "throttled latency = request_end - (schedule start + scheduled time)", ok_b, lat if lat is not None else addc, detail)
-    chk.ob("O4.1", "unthrottled latency = service_time", ok_e, lat if lat is not None else addc, detail)
+            # a plain formula: the same span whether or not the task is throttled
+            detail = f"latency is not a conditional expression: {u(le)}"
+            chk.ob("O4.1", "throttled == (scheduled time > 0)", False, lat, detail)
+            chk.ob("O4.1", "throttled latency = request_end - (schedule start + scheduled time)", False, lat, detail)
     rs = arg_named("request_start")
-    ok = rs is not None and ctxvar is not None and u(inline_node(rs, defs)) == f"{ctxvar}.request_start"
-    chk.ob("O4.1", "sample's request_start is the context's request_start", ok, rs if rs is not None else addc, "")
+    if rs is None or ctxvar is None:
+        not_located("O4.1", "the value handed to the sampler as request_start")
+    else:
+        chk.ob("O4.1", "sample's request_start is the context's request_start", u(formula_of(rs)) == f"{ctxvar}.request_start", rs, "")
     tp = arg_named("time_period")
-    ok = tp is not None and ctxvar is not None and rat_equal(inline_node(tp, defs), parse_expr(f"{ctxvar}.request_end - {total_start}"))
-    chk.ob("O4.1", "time_period = request_end - task start", ok, tp if tp is not None else addc, "")
+    if tp is None or ctxvar is None:
+        not_located("O4.1", "the value handed to the sampler as time_period")
+    else:
+        chk.ob("O4.1", "time_period = request_end - task start", rat_equal(formula_of(tp), parse_expr(f"{ctxvar}.request_end - {total_start}")), tp, "")
 
     # the request context's start/end are the earliest send / latest response of all wire requests (shared with C18/O18.1)
     from rules.C18 import merge_kind
@@ -638,116 +1339,178 @@ def run(chk):
     wn = g.node_of(Wn)
     ok = all(Wn in list(source.ancestors(r)) for r in runs)
     chk.ob("O4.2", "runner invoked inside the request context", ok, runs[0], "")
+    # the waits of an iteration: sleeps written in the loop or in a helper awaited from it; awaits that cannot be followed are kept apart (never a verdict)
+    sites, opaque = wait_sites(L, _Scope(call, defs), drv)
+
+    def before_request(n):
+        return not any(a is Wn for a in source.ancestors(n)) and g.path_exists(g.node_of(n), wn, avoid=[Lh])
+
+    wait_tops = list({id(t): t for _, _, t in sites}.values())
+    opaque_before = list({id(t): t for _, t in opaque if before_request(t)}.values())
+
+    def assigns_in_loop(name):
+        return [n for n in ast.walk(L) if isinstance(n, ast.Assign) and len(n.targets) == 1 and any(isinstance(x, ast.Name) and x.id == name for x in (
+            [n.targets[0]] if isinstance(n.targets[0], ast.Name) else n.targets[0].elts if isinstance(n.targets[0], ast.Tuple) else []))]
+
+    def between(a_node, waits):
+        """the waits that can run after a_node and before the request of the same iteration"""
+        return [w for w in waits if g.path_exists(a_node, g.node_of(w), avoid=[Lh]) and g.path_exists(g.node_of(w), wn, avoid=[Lh]) and g.node_of(w) is not a_node]
+
     if pt is not None and pstart is not None and pend is not None:
-        ps_node = [n for n in ast.walk(L) if isinstance(n, ast.Assign) and isinstance(n.targets[0], ast.Name) and n.targets[0].id == pstart]
-        pe_node = [n for n in ast.walk(L) if isinstance(n, ast.Assign) and isinstance(n.targets[0], ast.Name) and n.targets[0].id == pend]
-        ok = bool(ps_node) and Wn not in list(source.ancestors(ps_node[0])) and g.dominated_by_nodes(wn, [g.node_of(ps_node[0])]) and not g.path_exists(wn, g.node_of(ps_node[0]), avoid=[Lh])
-        chk.ob("O4.2", "processing_start before the context", ok, ps_node[0] if ps_node else L, "")
-        ok = bool(pe_node) and Wn not in list(source.ancestors(pe_node[0])) and g.dominated_by_nodes(g.node_of(pe_node[0]), [wn]) and not g.path_exists(g.node_of(pe_node[0]), wn, avoid=[Lh])
-        chk.ob("O4.2", "processing_end after the context", ok, pe_node[0] if pe_node else L, "")
-        # no await between processing_start and the context entry other than nothing
-        sleeps = [n for n in ast.walk(L) if isinstance(n, ast.Await) and "sleep" in u(n)]
-        ok = bool(ps_node) and not any(g.path_exists(g.node_of(ps_node[0]), g.node_of(s), avoid=[Lh]) and g.path_exists(g.node_of(s), wn, avoid=[Lh]) for s in sleeps)
-        chk.ob("O4.2", "no wait between processing_start and the request", ok, ps_node[0] if ps_node else L, "")
-    else:
-        chk.ob("O4.2", "processing interval anchors", False, addc, "processing_start / processing_end could not be identified")
+        ps_node, pe_node = assigns_in_loop(pstart), assigns_in_loop(pend)
+        if not ps_node or not pe_node:
+            not_located("O4.2", "the clock reads of the processing interval are not taken in the request loop")
+        else:
+            psn, pen = g.node_of(ps_node[0]), g.node_of(pe_node[0])
+            ok = Wn not in list(source.ancestors(ps_node[0])) and g.dominated_by_nodes(wn, [psn]) and not g.path_exists(wn, psn, avoid=[Lh])
+            chk.ob("O4.2", "processing_start before the context", ok, ps_node[0], "")
+            ok = Wn not in list(source.ancestors(pe_node[0])) and g.dominated_by_nodes(pen, [wn]) and not g.path_exists(pen, wn, avoid=[Lh])
+            chk.ob("O4.2", "processing_end after the context", ok, pe_node[0], "")
+            # no wait between processing_start and the context entry
+            late = between(psn, wait_tops)
+            chk.ob("O4.2", "no wait between processing_start and the request", not late, ps_node[0], "" if not late else f"`{short(late[0], 60)}` runs after the processing interval has started")
+            if not late and between(psn, opaque_before):
+                not_located("O4.2", f"`{short(between(psn, opaque_before)[0], 60)}` between processing_start and the request cannot be followed (it may wait)", ps_node[0])
+    elif pt is not None and not pt_wrong:
+        not_located("O4.2", "processing_start / processing_end")
     ch = ctx.cls("RequestContextHolder")
     cm = ctx.methods(ch)
+
+    def clocks_read(f, depth=2):
+        """dotted names of the time.* functions called by f or by a method of its class / function of its module that it calls"""
+        out = {dotted(n.func) for n in walk_body(f) if isinstance(n, ast.Call) and (dotted(n.func) or "").startswith("time.")}
+        if depth:
+            for n in walk_body(f):
+                callee = resolve_callee(n, ctx) if isinstance(n, ast.Call) else None
+                if callee is not None and callee is not f:
+                    out |= clocks_read(callee, depth - 1)
+        return out
+
     for nm in ("on_request_start", "on_request_end"):
         f = cm.get(nm)
-        ok = f is not None and any(isinstance(n, ast.Call) and dotted(n.func) == "time.perf_counter" for n in walk_body(f)) and not any(
-            isinstance(n, ast.Call) and dotted(n.func) in ("time.time", "time.monotonic") for n in walk_body(f))
-        chk.ob("O4.2", f"{nm} uses the same monotonic clock (perf_counter)", ok, f if f is not None else ch, "")
+        if f is None:
+            raise AnchorMissing(f"RequestContextHolder.{nm}")
+        clocks = clocks_read(f)
+        if not clocks:
+            not_located("O4.2", f"the clock read by RequestContextHolder.{nm}", f)
+            continue
+        chk.ob("O4.2", f"{nm} uses the same monotonic clock (perf_counter)", clocks == {"time.perf_counter"}, f, f"reads {sorted(clocks)}")
     trace_hook_table(chk, "O4.2", repo)
     from rules.C18 import propagation_guard_rule
 
     propagation_guard_rule(chk, "O4.2", ctx)
     at = arg_named("absolute_time")
-    ok = False
-    if at is not None and isinstance(at, ast.Name) and at.id in defs:
-        an = [n for n in ast.walk(L) if isinstance(n, ast.Assign) and isinstance(n.targets[0], ast.Name) and n.targets[0].id == at.id]
-        sleeps = [n for n in ast.walk(L) if isinstance(n, ast.Await) and "sleep" in u(n)]
-        ok = bool(an) and isinstance(defs[at.id], ast.Call) and dotted(defs[at.id].func) == "time.time" and g.dominated_by_nodes(wn, [g.node_of(an[0])]) and \
-            not any(g.path_exists(g.node_of(an[0]), g.node_of(s), avoid=[Lh]) for s in sleeps)
-        chk.ob("O4.2", "issue time stamp (wall clock) taken after the throttle wait and before the request", ok, an[0] if an else addc, "" if ok else "the stamp is taken before a wait (or not on every path)")
+    at_root = _root(at, defs) if at is not None else None
+    if at is None:
+        not_located("O4.2", "the value handed to the sampler as absolute_time")
+    elif isinstance(at, ast.Name) and at.id in defs and _clock_name(at_root) is not None and assigns_in_loop(at.id):
+        an_ = assigns_in_loop(at.id)[0]
+        late = [w for w in wait_tops if g.path_exists(g.node_of(an_), g.node_of(w), avoid=[Lh])]
+        ok = _clock_name(at_root) == "time.time" and g.dominated_by_nodes(wn, [g.node_of(an_)]) and not late
+        chk.ob("O4.2", "issue time stamp (wall clock) taken after the throttle wait and before the request", ok, an_, "" if ok else "the stamp is taken before a wait (or not on every path, or not from the wall clock)")
+        if ok and between(g.node_of(an_), opaque_before):
+            not_located("O4.2", f"`{short(between(g.node_of(an_), opaque_before)[0], 60)}` between the issue time stamp and the request cannot be followed (it may wait)", an_)
+    elif _clock_name(at) in ("time.time", "time.perf_counter"):
+        chk.ob("O4.2", "issue time stamp", False, at, "the stamp is read when the sample is recorded, after the request")
     else:
-        chk.ob("O4.2", "issue time stamp", False, addc, "absolute_time argument is not a single-assignment local")
+        not_located("O4.2", f"the issue time stamp `{u(at)}` is not a local that holds one reading of a clock", at)
 
     # ---- O4.3 no early issue ------------------------------------------------------------------------------------------------------------------------
-    chk.rule("O4.3", "when throttled, the sleep-until idiom (rest = T - now(); if rest > 0: await sleep(rest)) on the same T the latency formula subtracts precedes the request on every path", 2,
+    chk.rule("O4.3", "when throttled, the sleep-until (wait T - now() iff the task is throttled and the client ahead of time, in the loop or in a helper awaited from it) on the "
+             "same T the latency formula subtracts precedes the request on every path", 2,
              "a client ahead of schedule issues its request early: target throughput exceeded and latency negative/understated")
-    sleeps = [n for n in ast.walk(L) if isinstance(n, ast.Await) and isinstance(n.value, ast.Call) and dotted(n.value.func) == "asyncio.sleep"]
-    ok = False
-    detail = "no sleep in the loop"
-    for s in sleeps:
-        if not s.value.args:
+    lat_inl = inline_node(lat_body, defs) if lat_body is not None else None
+    verdicts = []
+    for s, sc, top in sites:
+        if not before_request(top):
             continue
-        argv = s.value.args[0]
-        gs = guards(s, stop=L)
-        fs = pat.fact_nodes(s, stop=L, path_sensitive=False)  # atomic guard facts of the explicit branches: arm position, `not`, orientation and conjunct order do not matter
-        rest_def = defs.get(argv.id) if isinstance(argv, ast.Name) else argv
-        # the T of `rest = T - now()` is the very T the throttled latency subtracts from request_end:  rest + latency == request_end - now()   (whatever T's zero point is called)
-        T_ok = rest_def is not None and lat_body is not None and ctxvar is not None and rat_equal(
-            ast.BinOp(left=inline_node(rest_def, {k: v for k, v in defs.items() if k != u(argv)}), op=ast.Add(), right=inline_node(lat_body, defs)),
-            parse_expr(f"{ctxvar}.request_end - time.perf_counter()"))
-        pos_guard = [f for f in fs if pat.is_(f, "E_rest > 0", binds={"rest": u(argv)})]
-        # the wait is under the very throttle condition the latency formula tests (compared after inlining, so a flag variable or the spelled-out comparison both do)
-        thr_guard = [f for f in fs if thr_expr is not None and (u(inline_node(f, defs)) == u(thr_expr) or (is_throttle_test(thr_expr) and is_throttle_test(inline_node(f, defs))))]
-        only = len(fs) == 2
-        ok = T_ok and bool(pos_guard) and bool(thr_guard) and only
-        detail = f"sleep({u(argv)}) with {u(argv)} = {u(rest_def) if rest_def is not None else '?'} under {[(u(t), p) for t, p in gs]}"
-        if ok:
-            # the throttle `if` is on every path to the request
-            top = [a for a in source.ancestors(s) if isinstance(a, ast.If) and source.logical_parent(a) is L and not getattr(a, "_synthetic_arm", None)]
-            ok = bool(top) and g.dominated_by_nodes(wn, [g.node_of(top[0])])
-            # rest is computed after the time base: `now()` read inside the throttled branch
+        kind, detail = wait_verdict(s, sc, L, sched, lat_inl, ctxvar)
+        if kind == "ok":
+            # the decision to wait is on every path to the request
+            stmt = source.enclosing_stmt(top)
+            while stmt is not None and source.logical_parent(stmt) is not L:
+                stmt = source.enclosing_stmt(source.parent(stmt)) if source.parent(stmt) is not None else None
+            if stmt is None or not g.dominated_by_nodes(wn, [g.node_of(stmt)]):
+                kind, detail = "bad", detail + ": the wait is not on every path to the request"
+        verdicts.append((kind, detail, top))
+        if kind == "ok":
             break
-    chk.ob("O4.3", "sleep-until on the scheduled time precedes the request", ok, sleeps[0] if sleeps else L, detail)
-    first = next((s_ for s_ in L.body if not is_logging_stmt(s_)), L.body[0])  # first statement of the iteration, logging aside
-    chk.ob("O4.3", "cancellation test precedes waiting", isinstance(first, ast.If) and "cancel.is_set" in u(first.test), first, "")
+    good = [v for v in verdicts if v[0] == "ok"]
+    unk = [v for v in verdicts if v[0] == "unknown"]
+    if good:
+        chk.ob("O4.3", "sleep-until on the scheduled time precedes the request", True, good[0][2], good[0][1])
+    elif unk:
+        not_located("O4.3", f"sleep-until of the throttled schedule: {unk[0][1]}", unk[0][2])
+    elif verdicts:
+        chk.ob("O4.3", "sleep-until on the scheduled time precedes the request", False, verdicts[0][2], verdicts[0][1])
+    elif opaque_before:
+        not_located("O4.3", f"sleep-until of the throttled schedule: no sleep before the request, `{short(opaque_before[0], 60)}` cannot be followed", opaque_before[0])
+    else:
+        chk.ob("O4.3", "sleep-until on the scheduled time precedes the request", False, L, "no wait before the request: neither the loop nor anything awaited from it before the request sleeps")
+
+    def is_cancel_test(e, depth=1):
+        """an event of the executor is consulted (`self.<attr>.is_set()`): written out, through a bound method hoisted out of the loop, or in a predicate method of the executor.
+        Which event it is follows from where it is tested (see cancel_ifs), not from the attribute's name."""
+        def event_read(x):
+            return any(isinstance(n, ast.Call) and isinstance(n.func, ast.Attribute) and n.func.attr == "is_set" and is_self_attr(n.func.value) for n in ast.walk(x))
+
+        if event_read(inline_node(e, defs)):
+            return True
+        for c in (n for n in ast.walk(e) if isinstance(n, ast.Call)) if depth else ():
+            f = resolve_callee(c, drv, defs)
+            if f is not None and any(event_read(r.value) for r in walk_body(f) if isinstance(r, ast.Return) and r.value is not None):
+                return True
+        return False
+
+    # the cancellation test that leaves the loop is passed on every path from the start of an iteration to a wait and to the request (statements that do not wait - a
+    # counter, a log line - may precede it)
+    # the cancellation test by role: an event of the executor tested BEFORE the request of the iteration, leaving the loop (the completion event is consulted after the request)
+    cancel_ifs = [n for n in ast.walk(L) if isinstance(n, ast.If) and source.enclosing(n, (ast.For, ast.While, ast.AsyncFor)) is L and is_cancel_test(n.test)
+                  and any(isinstance(x, ast.Break) for x in source.walk_explicit(n)) and before_request(n)]
+    if not cancel_ifs:
+        not_located("O4.3", "the cancellation test of the request loop (a test of the executor's cancel event that breaks out of the loop)", L)
+    else:
+        cn = [g.node_of(n) for n in cancel_ifs]
+        starts = [g.nodes[y] for y, lab in g.succ[Lh.id] if lab == "iter" and not any(g.nodes[y] is c for c in cn)]
+        reach = g.reachable(starts, avoid=cn + [Lh]) if starts else set()
+        early = [w for w in wait_tops + opaque_before + [Wn] if g.node_of(w).id in reach or any(g.node_of(w) is s_ for s_ in starts)]
+        chk.ob("O4.3", "cancellation test precedes waiting", not early, cancel_ifs[0], "" if not early else f"`{short(early[0], 60)}` can run before the cancellation test of the iteration")
 
     # ---- O4.4 one sample per request -----------------------------------------------------------------------------------------------------------------
     chk.rule("O4.4", "on every normal path from the runner invocation to the next iteration or loop exit exactly one sampler.add call is passed", 3,
              "requests without a sample (lost) or with two samples (double counted)")
     chk.ob("O4.4", "single sampler.add site in the loop", len(adds) == 1, addc, f"{len(adds)} site(s)")
-    ok = source.logical_parent(source.enclosing_stmt(addc)) is L and not guards(addc, stop=L) and source.enclosing(addc, (ast.For, ast.While, ast.AsyncFor)) is L
-    chk.ob("O4.4", "sampler.add unconditional at loop-body level", ok, addc, f"guards={[(u(t), p) for t, p in guards(addc, stop=L)]}")
+    ok = source.logical_parent(source.enclosing_stmt(addc)) is L and not guards(addc, stop=L) and source.enclosing(addc, (ast.For, ast.While, ast.AsyncFor)) is L and add_always
+    chk.ob("O4.4", "sampler.add unconditional at loop-body level", ok, addc, f"guards={[(u(t), p) for t, p in guards(addc, stop=L)]}" + ("" if add_always else "; conditional inside the helper that records the sample"))
     an = g.node_of(addc)
     wx = [n for n in g.by_ast.get(id(Wn), []) if n.kind == "with_exit"]
-    after_loop = [g.nodes[y] for (y, lab) in g.succ[Lh.id] if lab == "exhausted"]
-    breaks = [g.node_of(b) for b in ast.walk(L) if isinstance(b, ast.Break) and not any(isinstance(a, ast.If) and "cancel.is_set" in u(a.test) for a in source.ancestors(b))]
-    ok = bool(wx) and all(Lh.id not in g.reachable([w], avoid=[an], edge_ok=g.normal_edge) for w in wx)
+    if not wx:
+        raise AnchorMissing("exit of the request context in the control-flow graph of the request loop")
+    # (the rest of the iteration hangs in the synthetic else of the cancellation guard clause: only the breaks of the test's own arm belong to it)
+    cancel_breaks = {id(x) for c_ in cancel_ifs for x in source.walk_explicit(c_) if isinstance(x, ast.Break)}
+    breaks = [g.node_of(b) for b in ast.walk(L) if isinstance(b, ast.Break) and id(b) not in cancel_breaks and source.enclosing(b, (ast.For, ast.While, ast.AsyncFor)) is L]
+    ok = all(Lh.id not in g.reachable([w], avoid=[an], edge_ok=g.normal_edge) for w in wx)
     chk.ob("O4.4", "no path from the finished request to the next iteration bypasses sampler.add", ok, addc, "")
     # a break leaves a request unsampled only if it lies between the request and sampler.add (a break before the request was issued loses nothing)
     lost = [b for b in breaks if any(g.path_exists(w, b, avoid=[an, Lh], edge_ok=g.normal_edge) for w in wx)]
-    chk.ob("O4.4", "no break between the finished request and its sample", bool(wx) and not lost, addc, f"{len(breaks)} break(s) in the loop, {len(lost)} between request and sampler.add")
-    ok = g.dominated_by_nodes(an, wx) if wx else False
-    chk.ob("O4.4", "sample recorded after the request context closed", ok, addc, "")
+    chk.ob("O4.4", "no break between the finished request and its sample", not lost, addc, f"{len(breaks)} break(s) in the loop, {len(lost)} between request and sampler.add")
+    chk.ob("O4.4", "sample recorded after the request context closed", g.dominated_by_nodes(an, wx), addc, "")
 
     # ---- O4.5 field flow ----------------------------------------------------------------------------------------------------------------------------------
     chk.rule("O4.5", "positional/keyword flow loop arguments -> Sampler.add parameters -> Sample(...) arguments -> Sample attributes lands every value in the attribute of its meaning", 15,
              "two same-typed values swapped (latency/service_time, absolute_time/request_start, ...): every record carries the wrong number under the right name")
-    samp_add = drv.methods(drv.cls("Sampler"))["add"]
-    sample_init = drv.methods(drv.cls("Sample"))["__init__"]
-    ctor = [n for n in walk_body(samp_add) if isinstance(n, ast.Call) and last_attr(n.func) == "Sample"]
-    if not ctor:
-        raise AnchorMissing("Sample(...) construction in Sampler.add")
-    b1 = bind_args(addc, samp_add)  # add param -> loop expr
-    b2 = bind_args(ctor[0], sample_init)  # Sample param -> expr in add
-    attr_of_param = {}
-    for n in walk_body(sample_init):
-        if isinstance(n, ast.Assign) and len(n.targets) == 1 and is_self_attr(n.targets[0]) and isinstance(n.value, ast.Name):
-            attr_of_param[n.value.id] = n.targets[0].attr
-    attr_of_add_param = {}  # Sampler.add parameter -> Sample attribute (through the Sample(...) construction)
-    for sp, e in b2.items():
-        if isinstance(e, ast.Name) and e.id in b1:
-            attr_of_add_param[e.id] = attr_of_param.get(sp)
-    roles = flow_roles(L, defs, ctxvar, total_start, unpacked_result(runs[0]))
+    roles = flow_roles(L, defs, ctxvar, total_start, unpacked_result(runs[0]), drv, sched, expand)
     for src_expr, want in EXPECTED_FLOW.items():
         hits = [p for p, a in b1.items() if roles[src_expr](a)]  # parameters of Sampler.add that receive the value with this role
+        if not hits:
+            not_located("O4.5", f"the value `{src_expr}` among the arguments of the sampler call (no argument carries a value with this role)")
+            continue
+        if any(attr_of_add_param.get(p) is None for p in hits):
+            not_located("O4.5", f"the Sample attribute that stores the parameter {[p for p in hits if attr_of_add_param.get(p) is None]} of Sampler.{samp_add.name}", ctor0)
+            continue
         got = sorted({str(attr_of_add_param.get(p)) for p in hits})
-        chk.ob("O4.5", f"{src_expr} -> Sample.{want}", got == [want], addc, f"lands in Sample.{', '.join(got) if got else None}" + ("" if hits else " (no argument of sampler.add carries this value)"),
-               key=f"{_D}:flow:{src_expr}->{want}")
+        # (a leading underscore of the attribute is not part of its meaning: `_dependent_timing` / `dependent_timing`)
+        chk.ob("O4.5", f"{src_expr} -> Sample.{want}", [x.lstrip("_") for x in got] == [want.lstrip("_")], addc, f"lands in Sample.{', '.join(got)}", key=f"{_D}:flow:{src_expr}->{want}")
     ts = b2.get("task_start")
     from rules.C01 import executor_wiring
 
@@ -755,7 +1518,16 @@ def run(chk):
     from rules.C07 import drain_before_drive_rule
 
     drain_before_drive_rule(chk, "O4.4", drv)
-    chk.ob("O4.5", "task_start := sampler start timestamp", ts is not None and u(ts) == "self.start_timestamp", ctor[0], "")
+    # Sample.task_start is the attribute in which the sampler keeps the reading of the monotonic clock it was constructed with (by data flow: constructor parameter -> attribute)
+    s_init = drv.methods(drv.cls("Sampler")).get("__init__")
+    stamp_attrs = {n.targets[0].attr: n.value.id for n in (walk_body(s_init) if s_init is not None else ()) if isinstance(n, ast.Assign) and len(n.targets) == 1
+                   and is_self_attr(n.targets[0]) and isinstance(n.value, ast.Name) and n.value.id in params_of(s_init)}
+    made = [c for c in ast.walk(drv.tree) if isinstance(c, ast.Call) and isinstance(c.func, ast.Name) and c.func.id == "Sampler"]  # constructed by the worker, in this module
+    clock_params = {p for p in stamp_attrs.values() if made and all(_is_clock(bind_args(c, s_init).get(p)) for c in made)}
+    if ts is None or not clock_params:
+        not_located("O4.5", "the sampler's start timestamp (attribute set from the clock reading every Sampler(...) is constructed with) / the task_start argument of Sample(...)", ctor0)
+    else:
+        chk.ob("O4.5", "task_start := sampler start timestamp", is_self_attr(ts) and stamp_attrs.get(ts.attr) in clock_params, ctor0, f"task_start = {u(ts)}")
 
     check_execute_single(chk, drv, "O4.6", runs)
 
@@ -822,11 +1594,54 @@ def _trace_hook_table_local(chk, rid, repo):
     chk.ob(rid, "the trace configuration is handed to the client", bool(used) or anyuse, tc[0], "")
 
 
+def value_sources(fn, name, mod, region=None, depth=2):
+    """[(value expression, statement of fn that binds it, function the expression is written in)] for every binding of the local `name` under `region` (default: all of fn).
+    An unpacking assignment contributes the element at the local's position: of a tuple display, of the tuple a helper of the module / class returns (followed into the
+    helper, `depth` calls deep), or - for anything else - the synthesized subscript `<value>[i]`."""
+    out = []
+    nodes = [n for r in (region if region is not None else fn.body) for n in source.walk_local(r)]
+    for n in nodes:
+        if not isinstance(n, ast.Assign):
+            continue
+        for t in n.targets:
+            if isinstance(t, ast.Name) and t.id == name:
+                c = n.value.value if isinstance(n.value, ast.Await) else n.value
+                callee = resolve_callee(c, mod) if isinstance(c, ast.Call) and depth > 0 else None
+                rets = [_root(r.value, local_defs(callee)) for r in walk_body(callee) if isinstance(r, ast.Return) and r.value is not None] if callee is not None and callee is not fn else []
+                if rets and not any(isinstance(r, ast.Name) and r.id in params_of(callee) for r in rets):
+                    out += [(r, n, callee) for r in rets]  # what a helper of the module / class builds and returns
+                else:
+                    out.append((n.value, n, fn))
+            elif isinstance(t, (ast.Tuple, ast.List)) and any(isinstance(x, ast.Name) and x.id == name for x in t.elts):
+                i = [isinstance(x, ast.Name) and x.id == name for x in t.elts].index(True)
+                v = n.value
+                if isinstance(v, (ast.Tuple, ast.List)) and len(v.elts) == len(t.elts):
+                    out.append((v.elts[i], n, fn))
+                    continue
+                c = v.value if isinstance(v, ast.Await) else v
+                callee = resolve_callee(c, mod) if isinstance(c, ast.Call) else None
+                followed = False
+                if callee is not None and depth > 0 and callee is not fn:
+                    hd = local_defs(callee)
+                    rets = [_root(r.value, hd) for r in walk_body(callee) if isinstance(r, ast.Return) and r.value is not None]
+                    if rets and all(isinstance(r, ast.Tuple) and len(r.elts) == len(t.elts) for r in rets):
+                        followed = True
+                        for r in rets:
+                            e = r.elts[i]
+                            inner = value_sources(callee, e.id, mod, depth=depth - 1) if isinstance(e, ast.Name) and e.id not in params_of(callee) else []
+                            out += [(x, n, f_) for x, _, f_ in inner] if inner else [(e, n, callee)]
+                if not followed:
+                    out.append((ast.Subscript(value=v, slice=ast.Constant(value=i), ctx=ast.Load()), n, fn))
+    return out
+
+
 def check_execute_single(chk, drv, RID, runs=()):
     """Uniform error result and abort policy of execute_single (shared by C04/O4.6 and C09/O9.5b).
     The three result variables are located by role, not by name: they are the names at positions 0/1/2 of the function's single result tuple, and that tuple is tied to its meaning
-    through the stable dict keys of the runner protocol (position 0 receives return_value.pop('weight', ..), position 1 .pop('unit', ..), position 2 is the dict carrying 'success')."""
-    from sa.sym import truth_table, UnknownAtom
+    through the stable dict keys of the runner protocol (position 0 receives return_value.pop('weight', ..), position 1 .pop('unit', ..), position 2 is the dict carrying 'success').
+    Bindings are followed through unpacking assignments into helpers of the module (value_sources); the error flag of the abort condition is located by its role in that
+    condition and decided on the library's exception classes; a role that cannot be located is reported as not recognised, never as a violation."""
+    from sa.sym import UnknownAtom, bool_eval
 
     # ---- O4.6 uniform error result ------------------------------------------------------------------------------------------------------------------
     chk.rule(RID, "execute_single: every absorbing handler yields success False and zero ops; the final raise is controlled by not success and (on_error == 'abort' or fatal); "
@@ -837,13 +1652,24 @@ def check_execute_single(chk, drv, RID, runs=()):
     trys = [n for n in walk_body(es) if isinstance(n, ast.Try)]
     if not trys:
         raise AnchorMissing("try in execute_single")
-    rets = [n for n in es.body if isinstance(n, ast.Return)]
+
+    def not_located(what, node=None):
+        chk.unknown(RID, f"{what}: not recognised in this shape of execute_single", node if node is not None else es)
+
+    # the function's own result: the last statement as written (a guard clause before it makes the normaliser hang it into a synthetic else, source.flat lists it again)
+    rets = [n for n in source.flat(es.body) if isinstance(n, ast.Return)]
     rv = _root(rets[0].value, local_defs(es)) if len(rets) == 1 and rets[0].value is not None else None  # the tuple itself or a single-assignment temporary holding it
     triple = [x.id for x in rv.elts] if isinstance(rv, ast.Tuple) and len(rv.elts) == 3 and all(isinstance(x, ast.Name) for x in rv.elts) else None
-    ops_v, unit_v, meta_v = triple or (None, None, None)
+    if triple is None or len(set(triple)) != 3:
+        not_located("the single result tuple (operations, unit, meta data) returned at the end of the function", rets[0] if rets else es)
+        return
+    ops_v, unit_v, meta_v = triple
 
-    def assigns_to(root, name):
-        return [n for n in ast.walk(root) if name is not None and isinstance(n, ast.Assign) and len(n.targets) == 1 and isinstance(n.targets[0], ast.Name) and n.targets[0].id == name]
+    def unguarded(stmt, expr, fn, stop):
+        """the binding is unconditional: the statement of execute_single within `stop`, and - for a value found in a helper - the value's statement within the helper"""
+        if guards(stmt, stop=stop):
+            return False
+        return fn is es or not guards(source.enclosing_stmt(expr)) if getattr(expr, "_parent", None) is not None else True
 
     for h in trys[0].handlers:
         hn = [x for x in ge.by_ast.get(id(h), [])]
@@ -852,86 +1678,154 @@ def check_execute_single(chk, drv, RID, runs=()):
         if not absorbing:
             chk.ob(RID, f"handler {tname} raises on every path", True, h, "")
             continue
-        md = [n for s in h.body for n in assigns_to(s, meta_v) if isinstance(n.value, ast.Dict)]
-        ok = bool(md) and any(source.is_const(k, "success") and source.is_const(v, False) for k, v in zip(md[0].value.keys, md[0].value.values)) and not guards(md[0], stop=h)
-        chk.ob(RID, f"handler {tname}: success False", ok, h, "" if triple else "the result triple of execute_single could not be identified")
-        ops = [n for s in h.body for n in assigns_to(s, ops_v)]
-        ok = bool(ops) and source.is_const(ops[0].value, 0) and not guards(ops[0], stop=h)
-        chk.ob(RID, f"handler {tname}: zero ops", ok, h, "" if triple else "the result triple of execute_single could not be identified")
-    # error flags: locals set to True inside a handler of the request's try (the flag the abort condition may consult in addition to on_error)
-    flags = {n.targets[0].id for h in trys[0].handlers for n in ast.walk(h) if isinstance(n, ast.Assign) and len(n.targets) == 1 and isinstance(n.targets[0], ast.Name) and source.is_const(n.value, True)}
+        # what the handler reports: its own bindings; a member it does not bind keeps the default bound unconditionally before the request's try
+        before_try = [s_ for s_ in source.flat(es.body)[:([i for i, s_ in enumerate(source.flat(es.body)) if s_ is trys[0]] or [0])[0]]]
+        md = value_sources(es, meta_v, drv, region=h.body) or [x for x in value_sources(es, meta_v, drv, region=before_try) if not guards(x[1])]
+        dicts = [x for x in md if isinstance(x[0], ast.Dict)]
+        if not dicts:
+            not_located(f"handler {tname}: the meta data dict it reports", h)
+        else:
+            d, stmt, fn = dicts[0]
+            ok = any(source.is_const(k, "success") and source.is_const(v, False) for k, v in zip(d.keys, d.values)) and unguarded(stmt, d, fn, h)
+            chk.ob(RID, f"handler {tname}: success False", ok, h, f"reports {short(d, 80)}")
+        ops = value_sources(es, ops_v, drv, region=h.body) or [x for x in value_sources(es, ops_v, drv, region=before_try) if not guards(x[1])][-1:]
+        if not ops:
+            not_located(f"handler {tname}: the number of operations it reports", h)
+        else:
+            v, stmt, fn = ops[0]
+            chk.ob(RID, f"handler {tname}: zero ops", source.is_const(v, 0) and unguarded(stmt, v, fn, h), h, f"reports {short(v, 60)} operation(s)")
+    # error flags, by role: locals bound inside a handler of the request's try that the condition of the final raise consults (next to the success member and on_error)
+    handler_locals = {t.id for h in trys[0].handlers for n in ast.walk(h) if isinstance(n, ast.Assign) for t in n.targets if isinstance(t, ast.Name)}
     fin = [n for n in walk_body(es) if isinstance(n, ast.Raise) and not any(isinstance(a, (ast.ExceptHandler, ast.Try)) for a in source.ancestors(n) if a is not es)]
-    ok = False
-    detail = "no final raise"
+    flags, cannot = set(), None
     if fin:
-        gs = guards(fin[0])
+        import itertools
 
-        def classify(n):
-            if meta_v is not None and pat.is_(n, "V_m['success']", binds={"m": meta_v}):
-                return "success"
-            if pat.is_(n, "on_error == 'abort'"):
-                return "abort"
-            if isinstance(n, ast.Name) and n.id in flags:
-                return "fatal"
+        gs = guards(fin[0])
+        in_tests = {n.id for t, _ in gs for n in ast.walk(t) if isinstance(n, ast.Name) and isinstance(n.ctx, ast.Load)}
+        flags = {x for x in in_tests if x in handler_locals and x not in triple}
+        on_err = [p_ for p_ in params_of(es) if p_ in in_tests]  # the error behaviour the caller asks for: the parameter(s) the condition consults
+        # decided on values: the extracted tests are evaluated for a successful result, a failed one and a failed one that names its error type, for on_error in
+        # {continue, abort} and for every setting of the error flag(s); the raise must be reached iff the request failed and (abort is requested or the error is fatal)
+        metas = ({"success": True}, {"success": False}, {"success": False, "error-type": "transport", "error-description": "connection refused"})
+        ok, detail = True, f"raise under {[(u(t), p) for t, p in gs]}"
+        for meta_, abort_, fl_ in itertools.product(metas, (False, True), itertools.product((False, True), repeat=len(flags))):
+            env = {meta_v: dict(meta_), **{p_: "abort" if abort_ else "continue" for p_ in on_err}, **dict(zip(sorted(flags), fl_))}
+            try:
+                val = all(bool(ev(t, env)) == pol for t, pol in gs)
+            except (CannotEval, TypeError, ValueError, KeyError, AttributeError) as e:
+                cannot = str(e)
+                break
+            want = (not meta_["success"]) and (abort_ or any(fl_))
+            if val != want:
+                ok = False
+                detail += f": with result {meta_}, on_error={'abort' if abort_ else 'continue'}, error flag(s) {dict(zip(sorted(flags), fl_))} the request {'aborts' if val else 'does not abort'} the task"
+                break
+        if cannot is not None:
+            not_located(f"the condition of the final raise cannot be evaluated on (result, on_error, error flag): {cannot}", fin[0])
+        else:
+            chk.ob(RID, "abort condition == not success and (abort or fatal)", ok, fin[0], detail)
+    else:
+        # nothing raises after the request's try: either the policy is gone, or it was moved into a helper that raises
+        tail = [c for s_ in source.flat(es.body) if not isinstance(s_, ast.Try) for c in source.walk_local(s_) if isinstance(c, ast.Call)]
+        helpers = [f_ for f_ in (resolve_callee(c, drv) for c in tail) if f_ is not None and any(isinstance(n, ast.Raise) for n in walk_body(f_))]
+        if helpers:
+            not_located(f"the final raise of the abort policy (a helper that raises, {helpers[0].name}, is called)")
+        else:
+            chk.ob(RID, "abort condition == not success and (abort or fatal)", False, es, "no final raise: nothing raises after the request's try, directly or in a helper")
+    # the error flag is raised for the exact ConnectionError type only (connection refused: a node died), decided on the library's exception classes: for every class E the
+    # handler can receive, (guards of a binding of the flag) and (bound value) may hold only if E is ConnectionError itself - and do hold for it
+    fsets = [n for h in trys[0].handlers for n in ast.walk(h) if isinstance(n, ast.Assign) and len(n.targets) == 1 and isinstance(n.targets[0], ast.Name) and n.targets[0].id in flags
+             and not source.is_const(n.value, False)]
+    if fin and cannot is not None:
+        pass  # the condition was not understood (reported above): no statement about the flag it may consult
+    elif not flags or not fsets:
+        if fin:
+            chk.ob(RID, "fatal only for the exact ConnectionError type", False, fin[0], "the abort condition consults no flag that a handler of the request raises: a refused connection is not fatal")
+    else:
+        from sa.exc import Hierarchy, handler_type_names
+
+        hier = getattr(chk.repo, "_c04_hier", None)
+        if hier is None:
+            hier = chk.repo._c04_hier = Hierarchy()
+        target = "elasticsearch.ConnectionError"
+
+        def exc_atom(n, cls_, evar):
+            for p_, neg in (("type(V_e) is E_c", False), ("type(V_e) == E_c", False), ("V_e.__class__ is E_c", False), ("V_e.__class__ == E_c", False),
+                            ("type(V_e) is not E_c", True), ("type(V_e) != E_c", True), ("V_e.__class__ is not E_c", True), ("V_e.__class__ != E_c", True)):
+                b_ = pat.match(n, p_, binds={"e": evar})
+                if b_ is not None and hier.known(b_["c"]):
+                    return (hier.resolve_alias(cls_) == hier.resolve_alias(b_["c"])) != neg
+            if isinstance(n, ast.Call) and dotted(n.func) == "isinstance" and len(n.args) == 2 and isinstance(n.args[0], ast.Name) and n.args[0].id == evar:
+                cs_ = [dotted(x) for x in (n.args[1].elts if isinstance(n.args[1], ast.Tuple) else [n.args[1]])]
+                if all(c is not None and hier.known(c) for c in cs_):
+                    return any(hier.is_subclass(cls_, c) for c in cs_)
+            if isinstance(n, ast.Constant):
+                return bool(n.value)
             return None
 
-        try:
-            good = True
-            for s_ in (False, True):
-                for a_ in (False, True):
-                    for f_ in (False, True):
-                        env = {"success": s_, "abort": a_, "fatal": f_}
-                        val = True
-                        for t, pol in gs:
-                            rows = truth_table(t, ["success", "abort", "fatal"], classify)
-                            v = [r for e, r in rows if e == env][0]
-                            val = val and (v == pol)
-                        want = (not s_) and (a_ or f_)
-                        good = good and (val == want)
-            ok = good
-            detail = f"raise under {[(u(t), p) for t, p in gs]}"
-        except UnknownAtom as e:
-            detail = f"foreign atom in the abort condition: {e}"
-    chk.ob(RID, "abort condition == not success and (abort or fatal)", ok, fin[0] if fin else es, detail)
-    # every assignment that can raise an error flag (anything but the constant False) is under the exact-type test of the handler's own exception
-    fsets = [n for n in walk_body(es) if isinstance(n, ast.Assign) and len(n.targets) == 1 and isinstance(n.targets[0], ast.Name) and n.targets[0].id in flags and not source.is_const(n.value, False)]
-
-    def exact_connection_error(n):
-        h = source.enclosing(n, ast.ExceptHandler)
-        if h is None or not h.name:
-            return False
-        return pat.guarded(n, "type(V_e) is elasticsearch.ConnectionError", "elasticsearch.ConnectionError is type(V_e)", "type(V_e) == elasticsearch.ConnectionError", stop=h, binds={"e": h.name}) is not None
-
-    ok = bool(fsets) and all(exact_connection_error(n) for n in fsets)
-    chk.ob(RID, "fatal only for the exact ConnectionError type", ok, fsets[0] if fsets else es, "")
+        bad, unk, exact_set = [], [], False
+        for n in fsets:
+            h = source.enclosing(n, ast.ExceptHandler)
+            if h is None or not h.name:
+                unk.append((n, "the handler does not bind its exception"))
+                continue
+            caught = handler_type_names(h)
+            classes = sorted(c for c in hier.bases if c.split(".")[0] in ("elasticsearch", "elastic_transport") and hier.catches(caught, c))
+            if not any(hier.resolve_alias(c) == hier.resolve_alias(target) for c in classes):
+                unk.append((n, f"the handler ({', '.join(caught)}) does not receive {target}"))
+                continue
+            conds = [t if pol else negate(t) for t, pol in guards(n, stop=h, path_sensitive=True)] + [n.value]
+            for c in classes:
+                try:
+                    val = all(bool_eval(t, lambda x, c=c: exc_atom(x, c, h.name)) for t in conds)
+                except UnknownAtom as e:
+                    unk.append((n, f"`{e}` cannot be decided on the class of the exception"))
+                    break
+                is_exact = hier.resolve_alias(c) == hier.resolve_alias(target)
+                if val and not is_exact:
+                    bad.append((n, f"{c} raises the flag, too: `{short(n, 70)}` under {[u(t) for t in conds[:-1]]}"))
+                    break
+                exact_set = exact_set or (val and is_exact)
+        if bad:
+            chk.ob(RID, "fatal only for the exact ConnectionError type", False, bad[0][0], bad[0][1])
+        elif unk:
+            not_located(f"the error flag {sorted(flags)}: {unk[0][1]}", unk[0][0])
+        else:
+            chk.ob(RID, "fatal only for the exact ConnectionError type", exact_set, fsets[0], "" if exact_set else f"no binding of {sorted(flags)} holds for {target} itself")
     # the single result tuple carries (number of operations, their unit, meta data) in this order: tied to the runner protocol's dict keys
-    ok = triple is not None and len(set(triple)) == 3
-    detail = ""
-    if ok:
-        by_key = {}
-        for key_ in ("weight", "unit"):
-            by_key[key_] = {n.targets[0].id for n in walk_body(es) if isinstance(n, ast.Assign) and len(n.targets) == 1 and isinstance(n.targets[0], ast.Name)
-                            and isinstance(n.value, ast.Call) and last_attr(n.value.func) == "pop" and n.value.args and source.is_const(n.value.args[0], key_)}
-        success_dicts = {n.targets[0].id for n in walk_body(es) if isinstance(n, ast.Assign) and len(n.targets) == 1 and isinstance(n.targets[0], ast.Name) and isinstance(n.value, ast.Dict)
-                         and any(source.is_const(k, "success") for k in n.value.keys)}
-        ok = by_key["weight"] == {ops_v} and by_key["unit"] == {unit_v} and success_dicts == {meta_v}
-        detail = f"returns ({', '.join(triple)}); 'weight' -> {sorted(by_key['weight'])}, 'unit' -> {sorted(by_key['unit'])}, success dict -> {sorted(success_dicts)}"
-    chk.ob(RID, "uniform result triple", ok, rets[0] if rets else es, detail)
+    srcs = [value_sources(es, v, drv) for v in triple]
+
+    def is_pop(e, key_):
+        return isinstance(e, ast.Call) and last_attr(e.func) == "pop" and e.args and source.is_const(e.args[0], key_)
+
+    pos = {"weight": {i for i in range(3) if any(is_pop(e, "weight") for e, _, _ in srcs[i])},
+           "unit": {i for i in range(3) if any(is_pop(e, "unit") for e, _, _ in srcs[i])},
+           "success dict": {i for i in range(3) if any(isinstance(e, ast.Dict) and any(source.is_const(k, "success") for k in e.keys) for e, _, _ in srcs[i])}}
+    detail = f"returns ({', '.join(triple)}); " + ", ".join(f"{k} -> position {sorted(v) if v else '?'}" for k, v in pos.items())
+    if not all(pos.values()):
+        not_located("the bindings that tie the result tuple to the runner protocol (pop('weight'), pop('unit'), the dict with 'success'): " + detail, rets[0])
+    else:
+        chk.ob(RID, "uniform result triple", pos == {"weight": {0}, "unit": {1}, "success dict": {2}}, rets[0], detail)
     # unpacked in the loop in the same order: position i of the unpacking is the value handed to the sampler as ops / ops_unit / meta_data
     for r in runs:
         asg = source.enclosing_stmt(r)
         got = unpacked_result(r)
         fn = source.enclosing_func(r)
-        adds = [n for n in ast.walk(fn) if isinstance(n, ast.Call) and u(n.func) == "self.sampler.add"] if fn is not None else []
-        ok = False
-        detail = "the runner's result is not unpacked into three names next to a self.sampler.add(...) call"
-        if got is not None and len(got) == 3 and len(set(got)) == 3 and adds:
-            defs_ = local_defs(fn)
-            b = bind_args(adds[0], drv.methods(drv.cls("Sampler"))["add"])
-            sent = [u(inline_node(b[p_], defs_)) if p_ in b else None for p_ in ("ops", "ops_unit", "meta_data")]
-            ok = sent == got
-            detail = f"unpacked as ({', '.join(got)}); sampler.add receives ops={sent[0]}, ops_unit={sent[1]}, meta_data={sent[2]}"
-        chk.ob(RID, "result triple unpacked in order", ok, asg, detail)
+        samp_add, _, attr_of_add_param, _ = sample_field_flow(drv)
+        defs_ = all_defs(fn) if fn is not None else {}
+        adds = sample_handovers(fn, _Scope(fn, defs_), drv, samp_add) if fn is not None else []
+        if got is None or len(got) != 3 or not adds:
+            not_located("the unpacking of the runner's result into three locals next to the call that hands the sample to the sampler", asg)
+            continue
+        b = adds[0][1]
+        by_attr = {a: p for p, a in attr_of_add_param.items() if p in b}  # Sample attribute -> parameter of Sampler.add (parameter names play no role)
+        if not all(a in by_attr for a in ("total_ops", "total_ops_unit", "request_meta_data")):
+            not_located("the parameters of the sampler call that land in Sample.total_ops / total_ops_unit / request_meta_data", adds[0][0])
+            continue
+        sent = [u(inline_node(b[by_attr[a]], defs_)) for a in ("total_ops", "total_ops_unit", "request_meta_data")]
+        chk.ob(RID, "result triple unpacked in order", len(set(got)) == 3 and sent == got, asg,
+               f"unpacked as ({', '.join(got)}); the sampler receives total_ops={sent[0]}, total_ops_unit={sent[1]}, request_meta_data={sent[2]}")
 
 
 
@@ -1011,4 +1905,243 @@ VARIANTS = [
      V("", "keep", _A,
        "        meta, resp_body = await self.transport.perform_request(\n            method,\n            target,\n            headers=request_headers,\n            body=body,\n            request_timeout=self._request_timeout,\n            max_retries=self._max_retries,\n            retry_on_status=self._retry_on_status,\n            retry_on_timeout=self._retry_on_timeout,\n            client_meta=self._client_meta,\n        )\n",
        "        try:\n            meta, resp_body = await self.transport.perform_request(\n                method,\n                target,\n                headers=request_headers,\n                body=body,\n                request_timeout=self._request_timeout,\n                max_retries=self._max_retries,\n                retry_on_status=self._retry_on_status,\n                retry_on_timeout=self._retry_on_timeout,\n                client_meta=self._client_meta,\n            )\n        except BaseException:\n            self.on_request_end()\n            raise\n")],
+]
+
+# ---- hardening round 2: realistic refactorings (extracted helpers, if/else for conditional expressions, hoisted bound methods, renamed parameters, keyword calls) --------
+_CALL_HEAD = "    async def __call__(self, *args, **kwargs):\n        any_task_completes_parent = self.task.any_completes_parent\n"
+_SLEEP_BLOCK = ("                if throughput_throttled:\n                    rest = absolute_expected_schedule_time - time.perf_counter()\n                    if rest > 0:\n"
+                "                        await asyncio.sleep(rest)\n")
+_PROGRESS_CHAIN = ("                if completed:\n                    progress = 1.0\n                elif runner.percent_completed:\n                    progress = runner.percent_completed\n"
+                   "                else:\n                    progress = percent_completed\n")
+_WAIT_HELPER = ("    @staticmethod\n    async def _wait_until(point_in_time):\n        rest = point_in_time - time.perf_counter()\n        if rest > 0:\n            await asyncio.sleep(rest)\n\n")
+_PROGRESS_HELPER = ("    @staticmethod\n    def _progress(runner, completed, percent_completed):\n        if completed:\n            return 1.0\n        if runner.percent_completed:\n"
+                    "            return runner.percent_completed\n        return percent_completed\n\n")
+_LATENCY = "                latency = request_end - absolute_expected_schedule_time if throughput_throttled else service_time\n"
+_UNPACK_BLOCK = ("        if isinstance(return_value, tuple) and len(return_value) == 2:\n            total_ops, total_ops_unit = return_value\n            request_meta_data = {\"success\": True}\n"
+                 "        elif isinstance(return_value, dict):\n            total_ops = return_value.pop(\"weight\", 1)\n            total_ops_unit = return_value.pop(\"unit\", \"ops\")\n"
+                 "            request_meta_data = return_value\n            if \"success\" not in request_meta_data:\n                request_meta_data[\"success\"] = True\n"
+                 "        else:\n            total_ops = 1\n            total_ops_unit = \"ops\"\n            request_meta_data = {\"success\": True}\n")
+_ES_HEAD = "async def execute_single(runner, es, params, on_error):\n"
+
+
+def _unpack_helper(ret):
+    return ("def _unpack_runner_result(return_value):\n    if isinstance(return_value, tuple) and len(return_value) == 2:\n        ops, unit = return_value\n        meta = {\"success\": True}\n"
+            "    elif isinstance(return_value, dict):\n        ops = return_value.pop(\"weight\", 1)\n        unit = return_value.pop(\"unit\", \"ops\")\n        meta = return_value\n"
+            "        meta.setdefault(\"success\", True)\n    else:\n        ops = 1\n        unit = \"ops\"\n        meta = {\"success\": True}\n    return " + ret + "\n\n\n")
+
+
+_ADD_CALL_ARGS = ("                self.sampler.add(\n                    self.task,\n                    self.client_id,\n                    sample_type,\n                    request_meta_data,\n"
+                  "                    absolute_processing_start,\n                    request_start,\n                    latency,\n                    service_time,\n                    processing_time,\n"
+                  "                    throughput,\n                    total_ops,\n                    total_ops_unit,\n                    time_period,\n                    progress,\n"
+                  "                    request_meta_data.pop(\"dependent_timing\", None),\n                )\n")
+
+
+def _kw_call(callee, task, client, ops="total_ops", unit="total_ops_unit", indent="                "):
+    rows = [("task", task), ("client_id", client), ("sample_type", "sample_type"), ("request_meta_data", "request_meta_data"), ("absolute_time", "absolute_processing_start"),
+            ("request_start", "request_start"), ("latency", "latency"), ("service_time", "service_time"), ("processing_time", "processing_time"), ("throughput", "throughput"),
+            ("total_ops", ops), ("total_ops_unit", unit), ("time_period", "time_period"), ("percent_completed", "progress"),
+            ("dependent_timing", "request_meta_data.pop(\"dependent_timing\", None)")]
+    return indent + callee + "(\n" + "".join(f"{indent}    {k}={v},\n" for k, v in rows) + indent + ")\n"
+
+
+_ADD_SIG_OLD = "        sample_type,\n        meta_data,\n        absolute_time,\n        request_start,\n        latency,\n        service_time,\n        processing_time,\n        throughput,\n        ops,\n        ops_unit,\n        time_period,\n"
+_ADD_SIG_NEW = "        sample_type,\n        request_meta_data,\n        absolute_time,\n        request_start,\n        latency,\n        service_time,\n        processing_time,\n        throughput,\n        total_ops,\n        total_ops_unit,\n        time_period,\n"
+_CTOR_OLD = "                    sample_type,\n                    meta_data,\n                    latency,\n                    service_time,\n                    processing_time,\n                    throughput,\n                    ops,\n                    ops_unit,\n"
+_CTOR_NEW = "                    sample_type,\n                    request_meta_data,\n                    latency,\n                    service_time,\n                    processing_time,\n                    throughput,\n                    total_ops,\n                    total_ops_unit,\n"
+_LOOP_HEAD = "            async for expected_scheduled_time, sample_type, percent_completed, runner, params in schedule:\n                if self.cancel.is_set():\n"
+_HOIST = ("            cancelled = self.cancel.is_set\n            add_sample = self.sampler.add\n            new_request_context = self.es[\"default\"].new_request_context\n"
+          "            task = self.task\n            client_id = self.client_id\n"
+          "            async for expected_scheduled_time, sample_type, percent_completed, runner, params in schedule:\n                if cancelled():\n")
+_WITH_OLD = "                with self.es[\"default\"].new_request_context() as request_context:\n"
+_WITH_NEW = "                with new_request_context() as request_context:\n"
+_ADD_HEAD_OLD = "                self.sampler.add(\n                    self.task,\n                    self.client_id,\n"
+_F39_HANDLER = ("        except BaseException:\n            # aiohttp only signals `on_request_exception` until the response *headers* have arrived. A request that fails\n"
+                "            # later (timeout / disconnect while the body is read) ends now and not when its headers were received.\n"
+                "            try:\n                RequestContextHolder.on_request_end()\n            except LookupError:\n                pass\n            raise\n")
+_ABORT_BLOCK = ("    if not request_meta_data[\"success\"]:\n        if on_error == \"abort\" or fatal_error:\n            msg = \"Request returned an error. Error type: %s\" % request_meta_data.get(\"error-type\", \"Unknown\")\n\n"
+                "            if description := request_meta_data.get(\"error-description\"):\n                msg += f\", Description: {description}\"\n\n"
+                "            if http_status := request_meta_data.get(\"http-status\"):\n                msg += f\", HTTP Status: {http_status}\"\n\n            raise exceptions.RallyAssertionError(msg)\n")
+
+
+def _abort_merged(cond):
+    return ("    if " + cond + ":\n        error_type = request_meta_data.get(\"error-type\", \"Unknown\")\n        msg = f\"Request returned an error. Error type: {error_type}\"\n"
+            "        if description := request_meta_data.get(\"error-description\"):\n            msg += f\", Description: {description}\"\n"
+            "        if http_status := request_meta_data.get(\"http-status\"):\n            msg += f\", HTTP Status: {http_status}\"\n        raise exceptions.RallyAssertionError(msg)\n")
+
+
+
+VARIANTS += [
+    [V("h2 keep (C04-b1): sleep-until and progress selection extracted into helper methods of the executor", "keep", _D, _CALL_HEAD, _WAIT_HELPER + _PROGRESS_HELPER + _CALL_HEAD),
+     V("", "keep", _D, _SLEEP_BLOCK, "                if throughput_throttled:\n                    await self._wait_until(absolute_expected_schedule_time)\n"),
+     V("", "keep", _D, _PROGRESS_CHAIN, "                progress = self._progress(runner, completed, percent_completed)\n")],
+    [V("h2 break: the extracted sleep-until helper is handed the relative scheduled time", "break", _D, _CALL_HEAD, _WAIT_HELPER + _CALL_HEAD, "O4.3"),
+     V("", "break", _D, _SLEEP_BLOCK, "                if throughput_throttled:\n                    await self._wait_until(expected_scheduled_time)\n")],
+    [V("h2 break: the extracted sleep-until helper skips waits below a millisecond", "break", _D, _CALL_HEAD, _WAIT_HELPER.replace("if rest > 0:", "if rest > 0.001:") + _CALL_HEAD, "O4.3"),
+     V("", "break", _D, _SLEEP_BLOCK, "                if throughput_throttled:\n                    await self._wait_until(absolute_expected_schedule_time)\n")],
+    [V("h2 break: the extracted sleep-until helper is awaited for every request but waits only when the task is NOT completed externally", "break", _D, _CALL_HEAD,
+       "    async def _wait_until(self, point_in_time):\n        rest = point_in_time - time.perf_counter()\n        if rest > 0 and not self.complete.is_set():\n            await asyncio.sleep(rest)\n\n" + _CALL_HEAD, "O4.3"),
+     V("", "break", _D, _SLEEP_BLOCK, "                if throughput_throttled:\n                    await self._wait_until(absolute_expected_schedule_time)\n")],
+    [V("h2 keep: sleep-until helper with a guard clause, one clock read through a local, throttle test inside the helper", "keep", _D, _CALL_HEAD,
+       "    @staticmethod\n    async def _wait_until(throttled, point_in_time):\n        if not throttled:\n            return\n        now = time.perf_counter()\n        remaining = point_in_time - now\n"
+       "        if remaining <= 0:\n            return\n        await asyncio.sleep(remaining)\n\n" + _CALL_HEAD),
+     V("", "keep", _D, _SLEEP_BLOCK, "                await self._wait_until(throughput_throttled, absolute_expected_schedule_time)\n")],
+    V("h2 keep: sleep-until with the tests merged and flipped", "keep", _D, _SLEEP_BLOCK,
+      "                rest = absolute_expected_schedule_time - time.perf_counter()\n                if 0 < rest and throughput_throttled:\n                    await asyncio.sleep(rest)\n"),
+    V("h2 break: the progress helper's result lands in the sample's throughput slot (swapped at the call)", "break", _D,
+      "                    throughput,\n                    total_ops,\n                    total_ops_unit,\n                    time_period,\n                    progress,\n",
+      "                    progress,\n                    total_ops,\n                    total_ops_unit,\n                    time_period,\n                    throughput,\n", "O4.5"),
+    V("h2 keep: latency chosen by an if/else statement instead of a conditional expression", "keep", _D, _LATENCY,
+      "                if throughput_throttled:\n                    latency = request_end - absolute_expected_schedule_time\n                else:\n                    latency = service_time\n"),
+    V("h2 break: latency chosen by an if/else statement with the arms the wrong way round", "break", _D, _LATENCY,
+      "                if throughput_throttled:\n                    latency = service_time\n                else:\n                    latency = request_end - absolute_expected_schedule_time\n", "O4.1"),
+    V("h2 keep (C04-b2): error flag bound to the exact-type comparison itself", "keep", _D, "        if type(e) is elasticsearch.ConnectionError:\n            fatal_error = True\n",
+      "        fatal_error = type(e) is elasticsearch.ConnectionError\n"),
+    V("h2 break: error flag bound to an isinstance test (time-outs of subclasses become fatal)", "break", _D, "        if type(e) is elasticsearch.ConnectionError:\n            fatal_error = True\n",
+      "        fatal_error = isinstance(e, elasticsearch.ConnectionError)\n", "O4.6"),
+    V("h2 break: error flag raised for everything but the exact type", "break", _D, "        if type(e) is elasticsearch.ConnectionError:\n            fatal_error = True\n",
+      "        fatal_error = type(e) is not elasticsearch.ConnectionError\n", "O4.6"),
+    V("h2 keep (C04-b2): abort policy as one merged condition, body de-indented (the final return follows a guard clause that raises)", "keep", _D, _ABORT_BLOCK,
+      _abort_merged("not request_meta_data[\"success\"] and (fatal_error or \"abort\" == on_error)")),
+    V("h2 break: merged, de-indented abort condition that needs BOTH abort and a fatal error", "break", _D, _ABORT_BLOCK,
+      _abort_merged("not request_meta_data[\"success\"] and (fatal_error and \"abort\" == on_error)"), "O4.6"),
+    V("h2 break: merged, de-indented abort condition that also aborts successful requests", "break", _D, _ABORT_BLOCK,
+      _abort_merged("not request_meta_data[\"success\"] or fatal_error or \"abort\" == on_error"), "O4.6"),
+    [V("h2 keep (C09-b1): normalisation of the runner's result extracted into a module function with its own local names", "keep", _D, _ES_HEAD, _unpack_helper("ops, unit, meta") + _ES_HEAD),
+     V("", "keep", _D, _UNPACK_BLOCK, "        total_ops, total_ops_unit, request_meta_data = _unpack_runner_result(return_value)\n")],
+    [V("h2 break: the extracted normalisation returns unit and weight the other way round", "break", _D, _ES_HEAD, _unpack_helper("unit, ops, meta") + _ES_HEAD, "O4.6"),
+     V("", "break", _D, _UNPACK_BLOCK, "        total_ops, total_ops_unit, request_meta_data = _unpack_runner_result(return_value)\n")],
+    [V("h2 keep (C04-b3): parameters of Sampler.add renamed, the sampler called with keyword arguments", "keep", _D, _ADD_SIG_OLD, _ADD_SIG_NEW),
+     V("", "keep", _D, _CTOR_OLD, _CTOR_NEW),
+     V("", "keep", _D, _ADD_CALL_ARGS, _kw_call("self.sampler.add", "self.task", "self.client_id"))],
+    [V("h2 break: renamed parameters, keyword call that hands the unit over as number of operations", "break", _D, _ADD_SIG_OLD, _ADD_SIG_NEW, "O4."),
+     V("", "break", _D, _CTOR_OLD, _CTOR_NEW),
+     V("", "break", _D, _ADD_CALL_ARGS, _kw_call("self.sampler.add", "self.task", "self.client_id", ops="total_ops_unit", unit="total_ops"))],
+    [V("h2 keep (C18-b4): bound methods and attributes of the executor hoisted out of the request loop", "keep", _D, _LOOP_HEAD, _HOIST),
+     V("", "keep", _D, _WITH_OLD, _WITH_NEW),
+     V("", "keep", _D, _ADD_HEAD_OLD, "                add_sample(\n                    task,\n                    client_id,\n")],
+    [V("h2 break: hoisted shape, the sample is only recorded for requests with operations", "break", _D, _LOOP_HEAD, _HOIST, "O4.4"),
+     V("", "break", _D, _ADD_HEAD_OLD, "                if total_ops > 0:\n                  add_sample(\n                    task,\n                    client_id,\n")],
+    [V("h2 break: hoisted shape, client id and task handed over the other way round", "break", _D, _LOOP_HEAD, _HOIST, "O4.5"),
+     V("", "break", _D, _ADD_HEAD_OLD, "                add_sample(\n                    client_id,\n                    task,\n")],
+    V("h2 keep: recording the end of a failed wire request extracted into a method of the node class", "keep", _A, _F39_HANDLER,
+      "        except BaseException:\n            self._request_failed()\n            raise\n\n    @staticmethod\n    def _request_failed():\n        try:\n            RequestContextHolder.on_request_end()\n"
+      "        except LookupError:\n            pass\n"),
+    V("h2 break: the extracted recorder only records when no end was recorded before", "break", _A, _F39_HANDLER,
+      "        except BaseException:\n            self._request_failed()\n            raise\n\n    @staticmethod\n    def _request_failed():\n        try:\n"
+      "            if RequestContextHolder.request_context.get().get(\"request_end\") is None:\n                RequestContextHolder.on_request_end()\n        except LookupError:\n            pass\n", "O4.8"),
+]
+
+_CANCEL_TEST = "                if self.cancel.is_set():\n                    self.logger.info(\"User cancelled execution.\")\n                    break\n"
+VARIANTS += [
+    V("h2 keep: abort requested spelled as a membership test, success read with .get()", "keep", _D,
+      "    if not request_meta_data[\"success\"]:\n        if on_error == \"abort\" or fatal_error:\n", "    if not request_meta_data.get(\"success\"):\n        if fatal_error or on_error in (\"abort\",):\n"),
+    V("h2 keep: a request counter is incremented before the cancellation test of the iteration", "keep", _D, _LOOP_HEAD,
+      "            iteration = 0\n            async for expected_scheduled_time, sample_type, percent_completed, runner, params in schedule:\n                iteration += 1\n                if self.cancel.is_set():\n"),
+    [V("h2 break: the cancellation test is only reached after the throttle wait", "break", _D, _CANCEL_TEST, "", "O4.3"),
+     V("", "break", _D, _SLEEP_BLOCK, _SLEEP_BLOCK + _CANCEL_TEST)],
+    [V("h2 keep: cancellation test through a predicate method of the executor", "keep", _D, _CALL_HEAD, "    def _cancelled(self):\n        return self.cancel.is_set()\n\n" + _CALL_HEAD),
+     V("", "keep", _D, "                if self.cancel.is_set():\n                    self.logger.info(\"User cancelled", "                if self._cancelled():\n                    self.logger.info(\"User cancelled")],
+]
+
+_RAMPUP = ("        rampup_wait_time = self.schedule_handle.ramp_up_wait_time\n        if rampup_wait_time:\n"
+           "            self.logger.debug(\"client id [%s] waiting [%.2f]s for ramp-up.\", self.client_id, rampup_wait_time)\n            await asyncio.sleep(rampup_wait_time)\n")
+_ZERO = "        schedule_start = time.perf_counter() if rampup_wait_time else total_start\n"
+
+
+def _start_helper(ret_after_wait):
+    return ("    async def _start_schedule(self, task_start):\n        delay = self.schedule_handle.ramp_up_wait_time\n        if not delay:\n            return task_start\n"
+            "        self.logger.debug(\"client id [%s] waiting [%.2f]s for ramp-up.\", self.client_id, delay)\n        await asyncio.sleep(delay)\n        return " + ret_after_wait + "\n\n")
+
+
+VARIANTS += [
+    [V("h2 keep: ramp-up wait extracted into a coroutine method that returns the wait amount", "keep", _D, _CALL_HEAD,
+       "    async def _ramp_up(self):\n        delay = self.schedule_handle.ramp_up_wait_time\n        if delay:\n            await asyncio.sleep(delay)\n        return delay\n\n" + _CALL_HEAD),
+     V("", "keep", _D, _RAMPUP, "        rampup_wait_time = await self._ramp_up()\n")],
+    [V("h2 keep: ramp-up wait and the choice of the schedule's zero point extracted into one coroutine method", "keep", _D, _CALL_HEAD, _start_helper("time.perf_counter()") + _CALL_HEAD),
+     V("", "keep", _D, _RAMPUP, ""),
+     V("", "keep", _D, _ZERO, "        schedule_start = await self._start_schedule(total_start)\n")],
+    [V("h2 break: the extracted start-up helper returns the task start also after it has waited (F40 inside the helper)", "break", _D, _CALL_HEAD, _start_helper("task_start") + _CALL_HEAD, "O4.7"),
+     V("", "break", _D, _RAMPUP, ""),
+     V("", "break", _D, _ZERO, "        schedule_start = await self._start_schedule(total_start)\n")],
+]
+
+VARIANTS += [
+    V("h2 break: the loop is left between the finished request and its sample when the request carried no operations", "break", _D,
+      "                throughput = request_meta_data.pop(\"throughput\", None)\n", "                throughput = request_meta_data.pop(\"throughput\", None)\n                if total_ops == 0:\n                    break\n", "O4.4"),
+]
+
+_LAT_HELPER = "    @staticmethod\n    def _latency(throttled, end, scheduled, service_time):\n        if %s:\n            return service_time\n        return end - scheduled\n\n"
+_LAT_CALL = "                latency = self._latency(throughput_throttled, request_end, absolute_expected_schedule_time, service_time)\n"
+_STAMPS = "                absolute_processing_start = time.time()\n                processing_start = time.perf_counter()\n"
+_ES_PRE = "    fatal_error = False\n    try:\n        async with runner:"
+_TE_ZERO = "        fatal_error = True\n\n        total_ops = 0\n        total_ops_unit = \"ops\"\n"
+_AE_ZERO = "    except elasticsearch.ApiError as e:\n        total_ops = 0\n        total_ops_unit = \"ops\"\n"
+_TE_META = "        request_meta_data = {\"success\": False, \"error-type\": \"transport\"}\n"
+VARIANTS += [
+    [V("h2 keep: latency computed by a helper with a guard clause", "keep", _D, _CALL_HEAD, (_LAT_HELPER % "not throttled") + _CALL_HEAD), V("", "keep", _D, _LATENCY, _LAT_CALL)],
+    [V("h2 break: the latency helper returns the service time for THROTTLED requests", "break", _D, _CALL_HEAD, (_LAT_HELPER % "throttled") + _CALL_HEAD, "O4.1"), V("", "break", _D, _LATENCY, _LAT_CALL)],
+    V("h2 keep: sleep-until with an assignment expression in the merged test", "keep", _D, _SLEEP_BLOCK,
+      "                if throughput_throttled and (rest := absolute_expected_schedule_time - time.perf_counter()) > 0:\n                    await asyncio.sleep(rest)\n"),
+    V("h2 keep: sleep-until as a clamped amount", "keep", _D, _SLEEP_BLOCK,
+      "                if throughput_throttled:\n                    await asyncio.sleep(max(0.0, absolute_expected_schedule_time - time.perf_counter()))\n"),
+    V("h2 break: clamped sleep-until on the relative scheduled time", "break", _D, _SLEEP_BLOCK,
+      "                if throughput_throttled:\n                    await asyncio.sleep(max(0.0, expected_scheduled_time - time.perf_counter()))\n", "O4.3"),
+    V("h2 keep: the monotonic clock function hoisted into a local of the executor", "keep", _D, "        total_start = time.perf_counter()\n        # lazily",
+      "        now = time.perf_counter\n        total_start = now()\n        # lazily"),
+    V("h2 keep: progress chosen by one conditional expression", "keep", _D, _PROGRESS_CHAIN, "                progress = 1.0 if completed else (runner.percent_completed or percent_completed)\n"),
+    V("h2 keep: both time stamps of the request taken by one tuple assignment", "keep", _D, _STAMPS, "                absolute_processing_start, processing_start = time.time(), time.perf_counter()\n"),
+    V("h2 break: tuple assignment of the time stamps with the clocks the other way round", "break", _D, _STAMPS,
+      "                absolute_processing_start, processing_start = time.perf_counter(), time.time()\n", "O4."),
+    [V("h2 keep: zero operations / unit of the error results bound once before the request's try", "keep", _D, _ES_PRE, "    fatal_error = False\n    total_ops = 0\n    total_ops_unit = \"ops\"\n    try:\n        async with runner:"),
+     V("", "keep", _D, _TE_ZERO, "        fatal_error = True\n\n"), V("", "keep", _D, _AE_ZERO, "    except elasticsearch.ApiError as e:\n")],
+    [V("h2 break: the default bound before the request's try counts a failed request as one operation", "break", _D, _ES_PRE, "    fatal_error = False\n    total_ops = 1\n    total_ops_unit = \"ops\"\n    try:\n        async with runner:", "O4.6"),
+     V("", "break", _D, _TE_ZERO, "        fatal_error = True\n\n"), V("", "break", _D, _AE_ZERO, "    except elasticsearch.ApiError as e:\n")],
+    [V("h2 keep: the meta data of a failed request built by a module function", "keep", _D, _ES_HEAD, "def _failure(error_type):\n    return {\"success\": False, \"error-type\": error_type}\n\n\n" + _ES_HEAD),
+     V("", "keep", _D, _TE_META, "        request_meta_data = _failure(\"transport\")\n")],
+    [V("h2 break: the module function that builds the meta data of a failed request reports success", "break", _D, _ES_HEAD,
+       "def _failure(error_type):\n    return {\"success\": True, \"error-type\": error_type}\n\n\n" + _ES_HEAD, "O4.6"),
+     V("", "break", _D, _TE_META, "        request_meta_data = _failure(\"transport\")\n")],
+    V("h2 keep: the runner's result kept as one value and unpacked by a second statement", "keep", _D,
+      "                    total_ops, total_ops_unit, request_meta_data = await execute_single(runner, self.es, params, self.on_error)\n",
+      "                    result = await execute_single(runner, self.es, params, self.on_error)\n                    total_ops, total_ops_unit, request_meta_data = result\n"),
+    V("h2 break: the runner's result kept as one value and unpacked in the wrong order", "break", _D,
+      "                    total_ops, total_ops_unit, request_meta_data = await execute_single(runner, self.es, params, self.on_error)\n",
+      "                    result = await execute_single(runner, self.es, params, self.on_error)\n                    total_ops_unit, total_ops, request_meta_data = result\n", "O4.6"),
+]
+
+_NODE_TRY = "        try:\n            return await super().perform_request(*args, **kwargs)\n" + _F39_HANDLER
+
+
+def _flag_finally(initial):
+    return ("        failed = " + initial + "\n        try:\n            response = await super().perform_request(*args, **kwargs)\n            failed = False\n            return response\n"
+            "        finally:\n            if failed:\n                try:\n                    RequestContextHolder.on_request_end()\n                except LookupError:\n                    pass\n")
+
+
+_ON_START = "    def on_request_start(cls):\n        cls.update_request_start(time.perf_counter())\n"
+_ON_END = "    def on_request_end(cls):\n        cls.update_request_end(time.perf_counter())\n"
+VARIANTS += [
+    V("h2 keep: the end of a failed wire request recorded in a finally clause behind a success flag", "keep", _A, _NODE_TRY, _flag_finally("True")),
+    V("h2 break: the success flag of the finally clause starts out False (nothing is ever recorded)", "break", _A, _NODE_TRY, _flag_finally("False"), "O4.8"),
+    [V("h2 keep: the holder reads the monotonic clock through a helper of its own", "keep", _C, _ON_START,
+       "    def on_request_start(cls):\n        cls.update_request_start(cls._now())\n\n    @staticmethod\n    def _now():\n        return time.perf_counter()\n"),
+     V("", "keep", _C, _ON_END, "    def on_request_end(cls):\n        cls.update_request_end(cls._now())\n")],
+    [V("h2 break: the holder's clock helper reads the wall clock", "break", _C, _ON_START,
+       "    def on_request_start(cls):\n        cls.update_request_start(cls._now())\n\n    @staticmethod\n    def _now():\n        return time.time()\n", "O4.2"),
+     V("", "break", _C, _ON_END, "    def on_request_end(cls):\n        cls.update_request_end(cls._now())\n")],
+]
+
+_RECORD_HELPER = ("    def _record(self, sample_type, meta, issued_at, start, latency, service_time, processing_time, throughput, ops, unit, period, progress):\n"
+                  "        self.sampler.add(\n            self.task,\n            self.client_id,\n            sample_type,\n            meta,\n            issued_at,\n            start,\n            latency,\n"
+                  "            service_time,\n            processing_time,\n            throughput,\n            ops,\n            unit,\n            period,\n            progress,\n"
+                  "            meta.pop(\"dependent_timing\", None),\n        )\n\n")
+_RECORD_CALL = ("                self._record(sample_type, request_meta_data, absolute_processing_start, request_start, latency, service_time, processing_time, throughput, total_ops, "
+                "total_ops_unit, time_period, progress)\n")
+VARIANTS += [
+    [V("h2 keep: the call that hands the sample to the sampler extracted into a method of the executor with its own parameter names", "keep", _D, _CALL_HEAD, _RECORD_HELPER + _CALL_HEAD),
+     V("", "keep", _D, _ADD_CALL_ARGS, _RECORD_CALL)],
+    [V("h2 break: the extracted recording method is called with latency and service time the other way round", "break", _D, _CALL_HEAD, _RECORD_HELPER + _CALL_HEAD, "O4.5"),
+     V("", "break", _D, _ADD_CALL_ARGS, _RECORD_CALL.replace("latency, service_time, processing_time", "service_time, latency, processing_time"))],
+    [V("h2 break: the extracted recording method only records requests that carried operations", "break", _D, _CALL_HEAD,
+       _RECORD_HELPER.replace("        self.sampler.add(\n            self.task,", "        if ops:\n          self.sampler.add(\n            self.task,") + _CALL_HEAD, "O4.4"),
+     V("", "break", _D, _ADD_CALL_ARGS, _RECORD_CALL)],
 ]
